@@ -60,7 +60,7 @@ Section StmtInd.
   Hypothesis HAssign : forall t e, P (SAssign t e).
   Hypothesis HAug : forall x op e, P (SAugAssign x op e).
   Hypothesis HIf : forall c b o, Forall P b -> Forall P o -> P (SIf c b o).
-  Hypothesis HFor : forall x it b, Forall P b -> P (SFor x it b).
+  Hypothesis HFor : forall x it b o, Forall P b -> Forall P o -> P (SFor x it b o).
   Hypothesis HReturn : forall e, P (SReturn e).
   Hypothesis HExpr : forall e, P (SExpr e).
 
@@ -74,7 +74,7 @@ Section StmtInd.
     | SAssign t e => HAssign t e
     | SAugAssign x op e => HAug x op e
     | SIf c b o => HIf c b o (go b) (go o)
-    | SFor x it b => HFor x it b (go b)
+    | SFor x it b o => HFor x it b o (go b) (go o)
     | SReturn e => HReturn e
     | SExpr e => HExpr e
     end.
@@ -359,6 +359,10 @@ End FoldExp.
 (* ------------------------------------------------------------------ *)
 (* execution: basic facts                                              *)
 (* ------------------------------------------------------------------ *)
+(* sequential composition of two pieces of code *)
+Definition seq (f g : env -> outcome) : env -> outcome :=
+  fun rho => match f rho with Some (r, None) => g r | o => o end.
+
 Lemma is_call_some f e args : is_call f e = Some args -> e = ECall f args.
 Proof.
   destruct e; simpl; try discriminate. destruct (String.eqb f0 f) eqn:E; try discriminate.
@@ -402,10 +406,10 @@ Section Sem.
     end.
   Proof. reflexivity. Qed.
 
-  Lemma exec_for x it b rho :
-    exec (SFor x it b) rho =
+  Lemma exec_for x it b o rho :
+    exec (SFor x it b o) rho =
     match iter_vals rho it with
-    | Some vs => loop_with (exec_list b) x vs rho
+    | Some vs => seq (loop_with (exec_list b) x vs) (exec_list o) rho
     | None => None
     end.
   Proof. reflexivity. Qed.
@@ -462,11 +466,24 @@ Proof.
   rewrite (IHl H2). destruct a; simpl in *; try discriminate. reflexivity.
 Qed.
 
-Lemma fold_names okn l : forallb (gname okn) l = true -> mapM fold_exp l = Ok l.
+Lemma fold_names okn plen l : forallb (gname okn plen) l = true -> mapM fold_exp l = Ok l.
 Proof.
   induction l; simpl; auto. intro H. apply andb_true_iff in H; destruct H as [H1 H2].
   rewrite (IHl H2). destruct a; simpl in *; try discriminate. reflexivity.
 Qed.
+
+(* ================================================================== *)
+(* From here to the composition of the passes: [plen] gives the typed tuple arguments
+   (annotation Tuple[...]) with their length; they are user names and are never re-bound
+   (the guard), so they keep the value [rho0] gives them. *)
+Section Typed.
+  Variable plen : string -> option nat.
+  Notation prot := (M_A2A.prot plen).
+  Hypothesis prot_user : forall a, prot a = true -> user_name a = true.
+  Variable rho0 : env.
+  Hypothesis conf0 : forall a n, plen a = Some n -> exists vs, rho0 a = Some (VTup vs) /\ List.length vs = n.
+  (* the protected names still have their initial value *)
+  Definition Inv (r : env) : Prop := forall a, prot a = true -> r a = rho0 a.
 
 (* ------------------------------------------------------------------ *)
 (* ConstantFolder on statements                                        *)
@@ -480,12 +497,12 @@ Section FoldStmt.
   Notation iter_vals := (iter_vals ext).
 
   Definition fold_stmt_spec (s : stmt) : Prop :=
-    forall lv l, gstmt okn lv s = true -> fold_stmt s = Ok l ->
-                 (forall rho, exec_list l rho = exec s rho) /\ forallb (gstmt okn lv) l = true.
+    forall lv l, gstmt okn plen lv s = true -> fold_stmt s = Ok l ->
+                 (forall rho, exec_list l rho = exec s rho) /\ forallb (gstmt okn plen lv) l = true.
 
   Lemma fold_flat_sound b : Forall fold_stmt_spec b ->
-    forall lv b', forallb (gstmt okn lv) b = true -> flat_mapM fold_stmt b = Ok b' ->
-    (forall rho, exec_list b' rho = exec_list b rho) /\ forallb (gstmt okn lv) b' = true.
+    forall lv b', forallb (gstmt okn plen lv) b = true -> flat_mapM fold_stmt b = Ok b' ->
+    (forall rho, exec_list b' rho = exec_list b rho) /\ forallb (gstmt okn plen lv) b' = true.
   Proof.
     induction 1 as [|s r Hs Hr IH]; intros lv b' G H; simpl in H.
     - inversion H; subst. auto.
@@ -515,7 +532,7 @@ Section FoldStmt.
 
   Lemma fold_stmt_sound s : fold_stmt_spec s.
   Proof.
-    induction s as [t e|x op e|c b o Hb Ho|x it b Hb|e|e] using stmt_ind2; intros lv l G H;
+    induction s as [t e|x op e|c b o Hb Ho|x it b fo Hb Hfo|e|e] using stmt_ind2; intros lv l G H;
       cbn [gstmt fold_stmt] in G, H.
     - (* Assign *)
       inv_bind H. inv_bind H. inversion H; subst.
@@ -527,10 +544,12 @@ Section FoldStmt.
         * simpl. now rewrite Gx, G'.
       + apply andb_true_iff in G; destruct G as [G Gl]. apply andb_true_iff in G; destruct G as [Gn Ge].
         destruct (fold_exp_sound ext okn lv _ _ Ge Ha0) as (E & G').
-        simpl in Ha. rewrite (fold_names _ _ Gn) in Ha. simpl in Ha. inversion Ha; subst. split.
+        simpl in Ha. rewrite (fold_names _ _ _ Gn) in Ha. simpl in Ha. inversion Ha; subst. split.
         * intro rho. rewrite exec_list_single. simpl. now rewrite E.
         * simpl. rewrite Gn, G'. simpl.
-          destruct e; simpl in Gl; try discriminate; simpl in Ha0; inv_bind Ha0; inversion Ha0; subst; simpl.
+          destruct e; simpl in Gl; try discriminate; simpl in Ha0.
+          { inversion Ha0; subst. simpl. rewrite Gl. reflexivity. }
+          all: inv_bind Ha0; inversion Ha0; subst; simpl.
           all: apply mapM_ok, Forall2_length in Ha1; rewrite <- Ha1, Gl; reflexivity.
     - (* AugAssign *)
       apply andb_true_iff in G; destruct G as [G Ge]. apply andb_true_iff in G; destruct G as [Gx Gop].
@@ -556,27 +575,31 @@ Section FoldStmt.
         * intro rho. rewrite exec_list_single, !exec_if, Ec, Eb, Eo. reflexivity.
         * simpl. now rewrite Gc', Gb', Go'.
     - (* For *)
-      apply andb_true_iff in G; destruct G as [G Gb]. apply andb_true_iff in G; destruct G as [Gx Gi].
-      inv_bind H. inv_bind H. inversion H; subst.
+      apply andb_true_iff in G; destruct G as [G Go]. apply andb_true_iff in G; destruct G as [G Gb].
+      apply andb_true_iff in G; destruct G as [G Gn]. apply andb_true_iff in G; destruct G as [Gx Gi].
+      inv_bind H. inv_bind H. inv_bind H. inversion H; subst.
       destruct (fold_flat_sound _ Hb _ _ Gb Ha0) as (Eb & Gb').
+      destruct (fold_flat_sound _ Hfo _ _ Go Ha1) as (Eo & Go').
       assert (K : (forall rho, iter_vals rho a = iter_vals rho it) /\
-                  (match is_call "range" a with
-                   | Some args => forallb (gexp okn lv) args
-                   | None => const_iter a end) = true).
-      { destruct (is_call "range" it) as [args|] eqn:Ci.
+                  giter okn plen lv a = true /\ name_iter plen a = name_iter plen it).
+      { unfold giter in *. destruct (is_call "range" it) as [args|] eqn:Ci.
         - apply is_call_some in Ci. subst it. cbn [fold_exp] in Ha. inv_bind Ha.
           change (existsb (String.eqb "range") builtin_funcs) with false in Ha. inversion Ha; subst.
-          destruct (fold_args_sound _ _ _ Gi Ha1) as (Ea & Ga). split.
+          destruct (fold_args_sound _ _ _ Gi Ha2) as (Ea & Ga). split; [|split].
           + intro rho. rewrite !iter_vals_range, Ea. reflexivity.
           + rewrite is_call_call. simpl. exact Ga.
+          + reflexivity.
         - assert (a = it).
-          { destruct it; simpl in Gi; try discriminate; simpl in Ha;
-              rewrite (fold_const_list _ Gi) in Ha; simpl in Ha; inversion Ha; auto. }
+          { apply orb_true_iff in Gi. destruct Gi as [Gi|Gi].
+            - destruct it; simpl in Gi; try discriminate; simpl in Ha;
+                rewrite (fold_const_list _ Gi) in Ha; simpl in Ha; inversion Ha; auto.
+            - destruct it; simpl in Gi; try discriminate. simpl in Ha. inversion Ha; auto. }
           subst a. rewrite Ci. auto. }
-      destruct K as (Ei & Gi'). split.
+      destruct K as (Ei & Gi' & En). split.
       + intro rho. rewrite exec_list_single, !exec_for, Ei.
-        destruct (iter_vals rho it); auto. apply loop_with_ext. exact Eb.
-      + simpl. now rewrite Gx, Gi', Gb'.
+        destruct (iter_vals rho it) as [vs|]; auto. unfold seq. rewrite (loop_with_ext _ _ x vs rho Eb).
+        destruct (loop_with (exec_list b) x vs rho) as [[r1 [v1|]]|]; auto.
+      + cbn [forallb gstmt]. unfold body_lv in *. rewrite En. now rewrite Gx, Gi', Gn, Gb', Go'.
     - (* Return *)
       inv_bind H. inversion H; subst.
       destruct (fold_exp_sound ext okn lv _ _ G Ha) as (E & G'). split.
@@ -594,8 +617,8 @@ Section FoldStmt.
   Qed.
 
   Lemma fold_list_sound lv b b' :
-    forallb (gstmt okn lv) b = true -> fold_list b = Ok b' ->
-    (forall rho, exec_list b' rho = exec_list b rho) /\ forallb (gstmt okn lv) b' = true.
+    forallb (gstmt okn plen lv) b = true -> fold_list b = Ok b' ->
+    (forall rho, exec_list b' rho = exec_list b rho) /\ forallb (gstmt okn plen lv) b' = true.
   Proof.
     apply fold_flat_sound. apply Forall_forall. intros s _. apply fold_stmt_sound.
   Qed.
@@ -612,10 +635,14 @@ Definition Rout (P : string -> bool) (o o' : env * option val) : Prop :=
   Ragree P (fst o) (fst o') /\ snd o = snd o'.
 (* whenever the rewritten code [g] has an outcome, the original [f] has a related one *)
 Definition bsim (P : string -> bool) (f g : env -> outcome) : Prop :=
-  forall rho rho' o', Ragree P rho rho' -> g rho' = Some o' ->
-                      exists o, f rho = Some o /\ Rout P o o'.
-Definition seq (f g : env -> outcome) : env -> outcome :=
-  fun rho => match f rho with Some (r, None) => g r | o => o end.
+  forall rho rho' o', Inv rho' -> Ragree P rho rho' -> g rho' = Some o' ->
+                      exists o, f rho = Some o /\ Rout P o o' /\ Inv (fst o').
+
+Lemma Inv_upd rho x v : prot x = false -> Inv rho -> Inv (upd rho x v).
+Proof.
+  intros Px J a Pa. unfold upd. destruct (String.eqb x a) eqn:E; auto.
+  apply String.eqb_eq in E. congruence.
+Qed.
 
 Lemma Ragree_upd P rho rho' x v : Ragree P rho rho' -> Ragree P (upd rho x v) (upd rho' x v).
 Proof. intros H y Py. unfold upd. destruct (String.eqb x y); auto. Qed.
@@ -632,26 +659,28 @@ Proof. intros M H x Qx. auto. Qed.
 
 Lemma bsim_seq P f1 f2 g1 g2 : bsim P f1 g1 -> bsim P f2 g2 -> bsim P (seq f1 f2) (seq g1 g2).
 Proof.
-  intros B1 B2 rho rho' o' R H. unfold seq in *.
+  intros B1 B2 rho rho' o' J R H. unfold seq in *.
   destruct (g1 rho') as [[r1' [v|]]|] eqn:E1; try discriminate.
-  - inversion H; subst. destruct (B1 _ _ _ R E1) as ([r1 w] & F1 & R1 & Ev). simpl in *. subst w.
-    rewrite F1. exists (r1, Some v). split; auto. split; auto.
-  - destruct (B1 _ _ _ R E1) as ([r1 w] & F1 & R1 & Ev). simpl in *. subst w. rewrite F1.
-    apply (B2 _ _ _ R1 H).
+  - inversion H; subst. destruct (B1 _ _ _ J R E1) as ([r1 w] & F1 & (R1 & Ev) & J1). simpl in *. subst w.
+    rewrite F1. exists (r1, Some v). split; auto. split; auto. split; auto.
+  - destruct (B1 _ _ _ J R E1) as ([r1 w] & F1 & (R1 & Ev) & J1). simpl in *. subst w. rewrite F1.
+    apply (B2 _ _ _ J1 R1 H).
 Qed.
 
-Lemma bsim_loop P body body' x vs : bsim P body body' -> bsim P (loop_with body x vs) (loop_with body' x vs).
+Lemma bsim_loop P body body' x vs :
+  prot x = false -> bsim P body body' -> bsim P (loop_with body x vs) (loop_with body' x vs).
 Proof.
-  intro B. induction vs as [|v r IH]; intros rho rho' o' R H; simpl in *.
-  - inversion H; subst. exists (rho, None). split; auto. split; auto.
+  intros Px B. induction vs as [|v r IH]; intros rho rho' o' J R H; simpl in *.
+  - inversion H; subst. exists (rho, None). split; auto. split; auto. split; auto.
   - assert (S : bsim P (seq (fun e => body (upd e x v)) (loop_with body x r))
                        (seq (fun e => body' (upd e x v)) (loop_with body' x r))).
-    { apply bsim_seq; auto. intros e e' o2 Re He. apply (B _ _ _ (Ragree_upd _ _ _ x v Re) He). }
-    apply (S _ _ _ R H).
+    { apply bsim_seq; auto. intros e e' o2 Je Re He.
+      apply (B _ _ _ (Inv_upd _ x v Px Je) (Ragree_upd _ _ _ x v Re) He). }
+    apply (S _ _ _ J R H).
 Qed.
 
 Lemma bsim_nil P : bsim P (fun rho => Some (rho, None)) (fun rho => Some (rho, None)).
-Proof. intros rho rho' o' R H. inversion H; subst. exists (rho, None). split; auto. split; auto. Qed.
+Proof. intros rho rho' o' J R H. inversion H; subst. exists (rho, None). split; auto. split; auto. split; auto. Qed.
 
 (* ------------------------------------------------------------------ *)
 (* expressions depend only on the names the guard allows               *)
@@ -701,14 +730,15 @@ Section Agree.
 
   (* the iterator of a guarded loop *)
   Lemma iter_agree okn lv it rho rho' :
-    (match is_call "range" it with
-     | Some args => forallb (gexp okn lv) args
-     | None => const_iter it end) = true ->
+    giter okn plen lv it = true ->
     Ragree okn rho rho' -> iter_vals rho it = iter_vals rho' it.
   Proof.
-    intros G R. destruct (is_call "range" it) as [args|] eqn:Ci.
+    unfold giter. intros G R. destruct (is_call "range" it) as [args|] eqn:Ci.
     - apply is_call_some in Ci. subst. rewrite !iter_vals_range. now rewrite (args_agree _ _ _ _ _ G R).
-    - rewrite !iter_vals_other by auto. now rewrite (eval_agree okn lv _ _ _ (const_iter_gexp _ _ _ G) R).
+    - rewrite !iter_vals_other by auto. apply orb_true_iff in G. destruct G as [G|G].
+      + now rewrite (eval_agree okn lv _ _ _ (const_iter_gexp _ _ _ G) R).
+      + destruct it; simpl in G; try discriminate. destruct (prot x); try discriminate.
+        simpl. now rewrite (R x G).
   Qed.
 End Agree.
 
@@ -740,39 +770,53 @@ Proof.
   rewrite (gexp_mono P Q lv a M), IHl; auto.
 Qed.
 
+Lemma okt_mono (P Q : string -> bool) x :
+  (forall x, P x = true -> Q x = true) -> okt P plen x = true -> okt Q plen x = true.
+Proof.
+  unfold okt. intros M H. apply andb_true_iff in H. destruct H as [H1 H2]. now rewrite (M _ H1), H2.
+Qed.
+
+Lemma giter_mono (P Q : string -> bool) lv it :
+  (forall x, P x = true -> Q x = true) -> giter P plen lv it = true -> giter Q plen lv it = true.
+Proof.
+  unfold giter. intros M H. destruct (is_call "range" it).
+  - apply (gargs_mono P Q); auto.
+  - apply orb_true_iff in H. apply orb_true_iff. destruct H as [H|H]; auto. right.
+    destruct (name_iter plen it); auto.
+Qed.
+
 Lemma gstmt_mono (P Q : string -> bool) s :
-  (forall x, P x = true -> Q x = true) -> forall lv, gstmt P lv s = true -> gstmt Q lv s = true.
+  (forall x, P x = true -> Q x = true) -> forall lv, gstmt P plen lv s = true -> gstmt Q plen lv s = true.
 Proof.
   intro M.
-  induction s as [t e|x op e|c b o Hb Ho|x it b Hb|e|e] using stmt_ind2; intros lv G; cbn [gstmt] in *.
+  induction s as [t e|x op e|c b o Hb Ho|x it b fo Hb Hfo|e|e] using stmt_ind2; intros lv G; cbn [gstmt] in *.
   - destruct t as [x|tl].
-    + apply andb_true_iff in G; destruct G as [Gx Ge]. now rewrite (M _ Gx), (gexp_mono P Q lv e M Ge).
+    + apply andb_true_iff in G; destruct G as [Gx Ge]. now rewrite (okt_mono P Q x M Gx), (gexp_mono P Q lv e M Ge).
     + apply andb_true_iff in G; destruct G as [G Gl]. apply andb_true_iff in G; destruct G as [Gn Ge].
       rewrite (gexp_mono P Q lv e M Ge), Gl.
-      assert (forallb (gname Q) tl = true) as ->; auto.
+      assert (forallb (gname Q plen) tl = true) as ->; auto.
       clear - M Gn. induction tl; simpl in *; auto. apply andb_true_iff in Gn; destruct Gn.
-      rewrite IHtl by auto. destruct a; simpl in *; try discriminate. now rewrite (M _ H).
+      rewrite IHtl by auto. destruct a; simpl in *; try discriminate. now rewrite (okt_mono P Q _ M H).
   - apply andb_true_iff in G; destruct G as [G Ge]. apply andb_true_iff in G; destruct G as [Gx Gop].
-    now rewrite (M _ Gx), Gop, (gexp_mono P Q lv e M Ge).
+    now rewrite (okt_mono P Q x M Gx), Gop, (gexp_mono P Q lv e M Ge).
   - apply andb_true_iff in G; destruct G as [G Go]. apply andb_true_iff in G; destruct G as [Gc Gb].
     rewrite (gexp_mono P Q lv c M Gc). simpl.
-    assert (forallb (gstmt Q lv) b = true) as ->.
+    assert (forallb (gstmt Q plen lv) b = true) as ->.
     { clear - Hb Gb. induction Hb; simpl in *; auto. apply andb_true_iff in Gb; destruct Gb. rewrite H, IHHb; auto. }
     clear - Ho Go. induction Ho; simpl in *; auto. apply andb_true_iff in Go; destruct Go. rewrite H, IHHo; auto.
-  - apply andb_true_iff in G; destruct G as [G Gb]. apply andb_true_iff in G; destruct G as [Gx Gi].
-    rewrite (M _ Gx). simpl.
-    assert ((match is_call "range" it with
-             | Some args => forallb (gexp Q lv) args
-             | None => const_iter it end) = true) as ->.
-    { destruct (is_call "range" it); auto. apply (gargs_mono P Q); auto. }
-    simpl. clear - Hb Gb. induction Hb; simpl in *; auto.
-    apply andb_true_iff in Gb; destruct Gb. rewrite H, IHHb; auto.
+  - apply andb_true_iff in G; destruct G as [G Go]. apply andb_true_iff in G; destruct G as [G Gb].
+    apply andb_true_iff in G; destruct G as [G Gn]. apply andb_true_iff in G; destruct G as [Gx Gi].
+    rewrite (okt_mono P Q x M Gx), (giter_mono P Q lv it M Gi), Gn. simpl.
+    assert (forallb (gstmt Q plen (body_lv plen x lv it)) b = true) as ->.
+    { clear - Hb Gb. induction Hb; simpl in *; auto. apply andb_true_iff in Gb; destruct Gb. rewrite H, IHHb; auto. }
+    clear - Hfo Go. induction Hfo; simpl in *; auto.
+    apply andb_true_iff in Go; destruct Go. rewrite H, IHHfo; auto.
   - apply (gexp_mono P Q); auto.
   - destruct e; auto. apply (gexp_mono P Q); auto.
 Qed.
 
 Lemma glist_mono (P Q : string -> bool) lv l :
-  (forall x, P x = true -> Q x = true) -> forallb (gstmt P lv) l = true -> forallb (gstmt Q lv) l = true.
+  (forall x, P x = true -> Q x = true) -> forallb (gstmt P plen lv) l = true -> forallb (gstmt Q plen lv) l = true.
 Proof.
   intro M. induction l; simpl; auto. intro G. apply andb_true_iff in G; destruct G.
   rewrite (gstmt_mono P Q a M lv), IHl; auto.
@@ -784,7 +828,7 @@ Proof. reflexivity. Qed.
 
 Lemma user_visible x : user_name x = true -> visible x = true.
 Proof.
-  unfold user_name, visible, dunder, is_iftarg, iftarg_prefix.
+  unfold user_name, visible, dunder, is_iftarg, iftarg_prefix, is_forit, forit_prefix.
   destruct x as [|a s]; [reflexivity|].
   rewrite !prefix_cons. destruct (ascii_dec "_" a); cbn [negb andb]; auto. destruct s; simpl; discriminate.
 Qed.
@@ -801,49 +845,52 @@ Section SimStmt.
 
   Lemma bsim_ext P f f' g g' :
     (forall rho, f rho = f' rho) -> (forall rho, g rho = g' rho) -> bsim P f g -> bsim P f' g'.
-  Proof. intros Ef Eg B rho rho' o' R H. rewrite <- Eg in H. rewrite <- Ef. eauto. Qed.
+  Proof. intros Ef Eg B rho rho' o' J R H. rewrite <- Eg in H. rewrite <- Ef. eauto. Qed.
+
+  Lemma okt_inv P x : okt P plen x = true -> P x = true /\ prot x = false.
+  Proof. unfold okt. intro H. apply andb_true_iff in H. destruct H as [A B]. apply negb_true_iff in B. auto. Qed.
 
   Lemma bsim_assign P lv x e e' :
-    gexp P lv e = true -> (forall rho, eval rho e' = eval rho e) ->
+    prot x = false -> gexp P lv e = true -> (forall rho, eval rho e' = eval rho e) ->
     bsim P (exec (SAssign (TName x) e)) (exec (SAssign (TName x) e')).
   Proof.
-    intros G E rho rho' o' R H. simpl in *. rewrite E in H.
+    intros Px G E rho rho' o' J R H. simpl in *. rewrite E in H.
     rewrite (eval_agree ext P lv e rho rho' G R).
     destruct (eval rho' e) as [v|]; try discriminate. inversion H; subst.
-    exists (upd rho x v, None). split; auto. split; simpl; auto using Ragree_upd.
+    exists (upd rho x v, None). split; auto. split; [split|]; simpl; auto using Ragree_upd, Inv_upd.
   Qed.
 
   Lemma bsim_aug P lv x op e e' :
-    P x = true -> gexp P lv e = true -> (forall rho, eval rho e' = eval rho e) ->
+    P x = true -> prot x = false -> gexp P lv e = true -> (forall rho, eval rho e' = eval rho e) ->
     bsim P (exec (SAugAssign x op e)) (exec (SAugAssign x op e')).
   Proof.
-    intros Px G E rho rho' o' R H. simpl in *. rewrite E in H.
+    intros Px Qx G E rho rho' o' J R H. simpl in *. rewrite E in H.
     rewrite (eval_agree ext P lv e rho rho' G R), (R x Px).
     destruct (rho' x) as [a|]; try discriminate. destruct (eval rho' e) as [v|]; try discriminate.
     destruct (binop_val op a v) as [w|]; try discriminate. simpl in *. inversion H; subst.
-    exists (upd rho x w, None). split; auto. split; simpl; auto using Ragree_upd.
+    exists (upd rho x w, None). split; auto. split; [split|]; simpl; auto using Ragree_upd, Inv_upd.
   Qed.
 
   Lemma bsim_return P lv e e' :
     gexp P lv e = true -> (forall rho, eval rho e' = eval rho e) ->
     bsim P (exec (SReturn e)) (exec (SReturn e')).
   Proof.
-    intros G E rho rho' o' R H. simpl in *. rewrite E in H.
+    intros G E rho rho' o' J R H. simpl in *. rewrite E in H.
     rewrite (eval_agree ext P lv e rho rho' G R).
     destruct (eval rho' e) as [v|]; try discriminate. inversion H; subst.
-    exists (rho, Some v). split; auto. split; simpl; auto.
+    exists (rho, Some v). split; auto. split; [split|]; simpl; auto.
   Qed.
 
   Lemma bsim_expr P lv e e' :
     gexp P lv e = true -> gexp P lv e' = true -> (forall rho, eval rho e' = eval rho e) ->
     bsim P (exec (SExpr (Some e))) (exec (SExpr (Some e'))).
   Proof.
-    intros G G' E rho rho' o' R H. simpl in *.
+    intros G G' E rho rho' o' J R H. simpl in *.
     rewrite (gexp_not_call _ _ _ "print" G') in H by reflexivity.
     rewrite (gexp_not_call _ _ _ "print" G) by reflexivity. rewrite E in H.
     rewrite (eval_agree ext P lv e rho rho' G R).
     destruct (eval rho' e) as [v|]; try discriminate. inversion H; subst.
-    exists (rho, None). split; auto. split; simpl; auto.
+    exists (rho, None). split; auto. split; [split|]; simpl; auto.
   Qed.
 
   Lemma bsim_if P lv c c' fb fo gb go :
@@ -856,23 +903,21 @@ Section SimStmt.
                        | Some v => if truthy v then gb rho else go rho
                        | None => None end).
   Proof.
-    intros G E Bb Bo rho rho' o' R H. rewrite E in H.
+    intros G E Bb Bo rho rho' o' J R H. rewrite E in H.
     rewrite (eval_agree ext P lv c rho rho' G R).
     destruct (eval rho' c) as [v|]; try discriminate. destruct (truthy v); eauto.
   Qed.
 
-  Lemma bsim_for P lv x it fb gb :
-    (match is_call "range" it with
-     | Some args => forallb (gexp P lv) args
-     | None => const_iter it end) = true ->
-    bsim P fb gb ->
-    bsim P (fun rho => match iter_vals rho it with Some vs => loop_with fb x vs rho | None => None end)
-           (fun rho => match iter_vals rho it with Some vs => loop_with gb x vs rho | None => None end).
+  Lemma bsim_for P lv x it fb gb fo go :
+    prot x = false -> giter P plen lv it = true ->
+    bsim P fb gb -> bsim P fo go ->
+    bsim P (fun rho => match iter_vals rho it with Some vs => seq (loop_with fb x vs) fo rho | None => None end)
+           (fun rho => match iter_vals rho it with Some vs => seq (loop_with gb x vs) go rho | None => None end).
   Proof.
-    intros G B rho rho' o' R H.
+    intros Px G B Bo rho rho' o' J R H.
     rewrite (iter_agree ext P lv it rho rho' G R).
     destruct (iter_vals rho' it) as [vs|]; try discriminate.
-    apply (bsim_loop P fb gb x vs B _ _ _ R H).
+    apply (bsim_seq P _ _ _ _ (bsim_loop P fb gb x vs Px B) Bo _ _ _ J R H).
   Qed.
 
   Lemma bsim_list_cons P s r l1 l2 :
@@ -916,50 +961,69 @@ Section Multi.
   Lemma temptup_not_user : user_name temptup = false.
   Proof. reflexivity. Qed.
 
-  Lemma user_neq_temptup x : user_name x = true -> String.eqb x temptup = false.
-  Proof.
-    intro U. destruct (String.eqb x temptup) eqn:E; auto. apply String.eqb_eq in E. subst.
-    rewrite temptup_not_user in U. discriminate.
-  Qed.
+  Lemma not_user_not_prot x : user_name x = false -> prot x = false.
+  Proof. intro U. destruct (prot x) eqn:E; auto. apply prot_user in E. congruence. Qed.
 
-  (* x0 = _temptup[k]; x1 = _temptup[k+1]; ... against the tuple assignment *)
-  Lemma singles_sound names : forall done rest rho rho' o',
-    forallb user_name names = true -> List.length names = List.length rest ->
-    rho' temptup = Some (VTup (done ++ rest)) -> Ragree user_name rho rho' ->
-    exec_list (singles (EName temptup) names (Z.of_nat (List.length done))) rho' = Some o' ->
-    exists r, assign_names (map EName names) rest rho = Some r /\ Rout user_name (r, None) o'.
+  Lemma temptup_not_prot : prot temptup = false.
+  Proof. apply not_user_not_prot. reflexivity. Qed.
+
+  (* x0 = src[k]; x1 = src[k+1]; ... against the tuple assignment *)
+  Lemma singles_sound src names : forall done rest rho rho' o',
+    forallb (okt user_name plen) names = true ->
+    forallb (fun x => negb (String.eqb x src)) names = true ->
+    List.length names = List.length rest ->
+    rho' src = Some (VTup (done ++ rest)) -> Inv rho' -> Ragree user_name rho rho' ->
+    exec_list (singles (EName src) names (Z.of_nat (List.length done))) rho' = Some o' ->
+    exists r, assign_names (map EName names) rest rho = Some r /\ Rout user_name (r, None) o' /\ Inv (fst o').
   Proof.
-    induction names as [|x names IH]; intros done rest rho rho' o' U L T R H.
-    - destruct rest; try discriminate. simpl in *. inversion H; subst. exists rho. split; auto. split; auto.
+    induction names as [|x names IH]; intros done rest rho rho' o' U NS L T J R H.
+    - destruct rest; try discriminate. simpl in *. inversion H; subst. exists rho. split; auto. split; auto. split; auto.
     - destruct rest as [|v rest]; try discriminate. simpl in U. apply andb_true_iff in U; destruct U as [Ux Un].
+      simpl in NS. apply andb_true_iff in NS; destruct NS as [Nx Nn]. apply negb_true_iff in Nx.
+      destruct (okt_inv _ _ Ux) as (Ux1 & Ux2).
       cbn [singles] in H. rewrite exec_list_cons in H. cbn [M_A2A.exec M_A2A.eval val_of_cst] in H.
       rewrite T in H. unfold subscript_val in H. cbn [as_int] in H. rewrite index_list_mid in H.
       simpl. apply (IH (done ++ [v]) rest (upd rho x v) (upd rho' x v) o'); auto.
-      + unfold upd. rewrite (user_neq_temptup _ Ux). now rewrite <- app_assoc.
+      + unfold upd. rewrite Nx. now rewrite <- app_assoc.
+      + apply Inv_upd; auto.
       + apply Ragree_upd; auto.
       + rewrite app_length. simpl. replace (Z.of_nat (List.length done + 1)) with (Z.of_nat (List.length done) + 1)%Z by lia.
         exact H.
   Qed.
 
-  Lemma singles_guard lv names k :
-    forallb user_name names = true ->
-    forallb (gstmt visible lv) (singles (EName temptup) names k) = true.
+  Lemma okt_user_visible x : okt user_name plen x = true -> okt visible plen x = true.
+  Proof. apply okt_mono. apply user_visible. Qed.
+
+  Lemma singles_guard lv src names k :
+    visible src = true ->
+    forallb (okt user_name plen) names = true ->
+    forallb (gstmt visible plen lv) (singles (EName src) names k) = true.
   Proof.
-    revert k; induction names as [|x r IH]; intros k U; simpl; auto.
+    intro Vs. revert k; induction names as [|x r IH]; intros k U; simpl; auto.
     simpl in U. apply andb_true_iff in U; destruct U as [Ux Ur].
-    rewrite (user_visible _ Ux), IH by auto. reflexivity.
+    rewrite (okt_user_visible _ Ux), Vs, IH by auto. reflexivity.
   Qed.
 
-  Lemma gnames_user tl names : tl = map EName names -> forallb (gname user_name) tl = true -> forallb user_name names = true.
+  Lemma gnames_user tl names :
+    tl = map EName names -> forallb (gname user_name plen) tl = true -> forallb (okt user_name plen) names = true.
   Proof. intros ->. induction names; simpl; auto. intro H. apply andb_true_iff in H; destruct H. rewrite H, IHnames; auto. Qed.
 
+  Lemma okt_neq_src src names :
+    (user_name src = false \/ prot src = true) -> forallb (okt user_name plen) names = true ->
+    forallb (fun x => negb (String.eqb x src)) names = true.
+  Proof.
+    intros S. induction names; simpl; auto. intro H. apply andb_true_iff in H; destruct H as [H1 H2].
+    rewrite IHnames by auto. destruct (okt_inv _ _ H1) as (U & Q).
+    destruct (String.eqb a src) eqn:E; auto. apply String.eqb_eq in E. subst. destruct S; congruence.
+  Qed.
+
   Definition multi_spec (s : stmt) : Prop :=
-    forall lv l, gstmt user_name lv s = true -> multi_stmt s = Ok l ->
-                 forallb (gstmt visible lv) l = true /\ bsim user_name (exec s) (exec_list l).
+    forall lv l, gstmt user_name plen lv s = true -> multi_stmt s = Ok l ->
+                 forallb (gstmt visible plen lv) l = true /\ bsim user_name (exec s) (exec_list l).
 
   Lemma multi_flat_sound b : Forall multi_spec b ->
-    forall lv b', forallb (gstmt user_name lv) b = true -> flat_mapM multi_stmt b = Ok b' ->
-    forallb (gstmt visible lv) b' = true /\ bsim user_name (exec_list b) (exec_list b').
+    forall lv b', forallb (gstmt user_name plen lv) b = true -> flat_mapM multi_stmt b = Ok b' ->
+    forallb (gstmt visible plen lv) b' = true /\ bsim user_name (exec_list b) (exec_list b').
   Proof.
     induction 1 as [|s r Hs Hr IH]; intros lv b' G H; simpl in H.
     - inversion H; subst. split; auto. apply bsim_nil.
@@ -974,47 +1038,78 @@ Section Multi.
   Lemma bsim_single P f s : bsim P f (exec s) -> bsim P f (exec_list [s]).
   Proof. apply bsim_ext; auto. intro rho. now rewrite exec_list_single. Qed.
 
+  Lemma exists_names_false a names :
+    prot a = true -> forallb (okt user_name plen) names = true -> existsb (String.eqb a) names = false.
+  Proof.
+    intro Pa. induction names; simpl; auto. intro H. apply andb_true_iff in H; destruct H as [H1 H2].
+    rewrite IHnames by auto. destruct (okt_inv _ _ H1) as (U & Q).
+    destruct (String.eqb a a0) eqn:E; auto. apply String.eqb_eq in E. subst. congruence.
+  Qed.
+
   Lemma multi_stmt_sound s : multi_spec s.
   Proof.
-    induction s as [t e|x op e|c b o Hb Ho|x it b Hb|e|e] using stmt_ind2; intros lv l G H;
+    induction s as [t e|x op e|c b o Hb Ho|x it b fo Hb Hfo|e|e] using stmt_ind2; intros lv l G H;
       cbn [gstmt multi_stmt] in G, H.
     - destruct t as [x|tl].
       + inversion H; subst. split.
         * cbn [forallb]. rewrite andb_true_r. apply (gstmt_mono user_name visible (SAssign (TName x) e) user_visible lv). exact G.
-        * apply andb_true_iff in G; destruct G as [Gx Ge].
+        * apply andb_true_iff in G; destruct G as [Gx Ge]. destruct (okt_inv _ _ Gx) as (Gx1 & Gx2).
           apply bsim_single. apply (bsim_assign ext user_name lv); auto.
       + apply andb_true_iff in G; destruct G as [G Gl]. apply andb_true_iff in G; destruct G as [Gn Ge].
         inv_bind H. pose proof (names_of_ok _ _ Ha) as Etl.
         pose proof (gnames_user _ _ Etl Gn) as Un.
-        assert (Ee : exists es, (e = ETuple es \/ e = EList es) /\ List.length es = List.length tl).
-        { destruct e; simpl in Gl; try discriminate; exists l0; split; auto; now apply Nat.eqb_eq. }
-        destruct Ee as (es & Ee & Les).
-        assert (H' : l = SAssign (TName temptup) e :: singles (EName temptup) a 0%Z).
-        { destruct Ee; subst e; inversion H; auto. }
-        clear H. subst l. split.
-        * simpl. rewrite (gexp_mono user_name visible lv e user_visible Ge), (singles_guard lv a 0%Z Un). reflexivity.
-        * intros rho rho' o' R H. rewrite exec_list_cons in H. simpl in H.
-          assert (Ev : eval rho' e = option_map VTup (all_some (map (eval rho') es))).
-          { destruct Ee; subst e; reflexivity. }
-          assert (Ev0 : eval rho e = eval rho' e) by (apply (eval_agree ext user_name lv); auto).
-          rewrite Ev in H. destruct (all_some (map (eval rho') es)) as [vals|] eqn:Evs; try discriminate.
-          simpl in H.
-          assert (Lv : List.length vals = List.length es).
-          { clear - Evs. revert vals Evs. induction es; simpl; intros vals H.
-            - inversion H; auto.
-            - destruct (eval rho' a); try discriminate. destruct (all_some (map (eval rho') es)); try discriminate.
-              simpl in H. inversion H; subst. simpl. f_equal. auto. }
-          assert (L1 : List.length a = List.length vals).
-          { rewrite Lv, Les, Etl, map_length. reflexivity. }
-          assert (T1 : upd rho' temptup (VTup vals) temptup = Some (VTup ([] ++ vals))).
-          { unfold upd. now rewrite String.eqb_refl. }
-          assert (R1 : Ragree user_name rho (upd rho' temptup (VTup vals))).
-          { apply Ragree_upd_r; auto. }
-          destruct (singles_sound a [] vals rho _ o' Un L1 T1 R1 H) as (r & Hr & Ro).
-          cbn [M_A2A.exec]. rewrite Ev0, Ev. cbn [option_map]. rewrite Etl, Hr. cbn [option_map]. eauto.
+        destruct (tuple_lit_len e) as [nl|] eqn:Tl.
+        * (* a literal tuple / list on the right: through _temptup *)
+          assert (Ee : exists es, (e = ETuple es \/ e = EList es) /\ List.length es = List.length tl).
+          { destruct e; simpl in Tl; try discriminate; inversion Tl; subst; exists l0; split; auto; now apply Nat.eqb_eq. }
+          destruct Ee as (es & Ee & Les).
+          assert (H' : l = SAssign (TName temptup) e :: singles (EName temptup) a 0%Z).
+          { destruct Ee; subst e; inversion H; auto. }
+          clear H. subst l. split.
+          -- cbn [forallb gstmt]. unfold okt at 1. rewrite temptup_not_prot.
+             rewrite (gexp_mono user_name visible lv e user_visible Ge), (singles_guard lv temptup a 0%Z eq_refl Un). reflexivity.
+          -- intros rho rho' o' J R H. rewrite exec_list_cons in H. simpl in H.
+             assert (Ev : eval rho' e = option_map VTup (all_some (map (eval rho') es))).
+             { destruct Ee; subst e; reflexivity. }
+             assert (Ev0 : eval rho e = eval rho' e) by (apply (eval_agree ext user_name lv); auto).
+             rewrite Ev in H. destruct (all_some (map (eval rho') es)) as [vals|] eqn:Evs; try discriminate.
+             simpl in H.
+             assert (Lv : List.length vals = List.length es).
+             { clear - Evs. revert vals Evs. induction es; simpl; intros vals H.
+               - inversion H; auto.
+               - destruct (eval rho' a); try discriminate. destruct (all_some (map (eval rho') es)); try discriminate.
+                 simpl in H. inversion H; subst. simpl. f_equal. auto. }
+             assert (L1 : List.length a = List.length vals).
+             { rewrite Lv, Les, Etl, map_length. reflexivity. }
+             assert (T1 : upd rho' temptup (VTup vals) temptup = Some (VTup ([] ++ vals))).
+             { unfold upd. now rewrite String.eqb_refl. }
+             assert (R1 : Ragree user_name rho (upd rho' temptup (VTup vals))).
+             { apply Ragree_upd_r; auto. }
+             assert (J1 : Inv (upd rho' temptup (VTup vals))) by (apply Inv_upd; auto using temptup_not_prot).
+             assert (N1 : forallb (fun x => negb (String.eqb x temptup)) a = true).
+             { apply okt_neq_src; auto. }
+             destruct (singles_sound temptup a [] vals rho _ o' Un N1 L1 T1 J1 R1 H) as (r & Hr & Ro & Jo).
+             cbn [M_A2A.exec]. rewrite Ev0, Ev. cbn [option_map]. rewrite Etl, Hr. cbn [option_map]. eauto.
+        * (* a typed tuple argument on the right: the single assignments read it directly *)
+          destruct e; try discriminate. destruct (plen x) as [n|] eqn:Px; try discriminate.
+          apply Nat.eqb_eq in Gl.
+          assert (Pa : prot x = true) by (unfold M_A2A.prot; now rewrite Px).
+          rewrite (exists_names_false _ _ Pa Un) in H. inversion H; subst l. clear H. split.
+          -- apply singles_guard; auto. apply user_visible. simpl in Ge. exact Ge.
+          -- intros rho rho' o' J R H.
+             destruct (conf0 _ _ Px) as (vals & Hv & Lv).
+             assert (T1 : rho' x = Some (VTup ([] ++ vals))) by (rewrite (J x Pa); exact Hv).
+             assert (L1 : List.length a = List.length vals).
+             { rewrite Lv, Gl, Etl, map_length. reflexivity. }
+             assert (N1 : forallb (fun y => negb (String.eqb y x)) a = true).
+             { apply okt_neq_src; auto. }
+             destruct (singles_sound x a [] vals rho rho' o' Un N1 L1 T1 J R H) as (r & Hr & Ro & Jo).
+             cbn [M_A2A.exec M_A2A.eval]. simpl in Ge. rewrite (R x Ge), T1. cbn [app option_map].
+             rewrite Etl, Hr. cbn [option_map]. eauto.
     - inversion H; subst. split.
       + cbn [forallb]. rewrite andb_true_r. apply (gstmt_mono user_name visible (SAugAssign x op e) user_visible lv). exact G.
       + apply andb_true_iff in G; destruct G as [G Ge]. apply andb_true_iff in G; destruct G as [Gx Gop].
+        destruct (okt_inv _ _ Gx) as (Gx1 & Gx2).
         apply bsim_single. apply (bsim_aug ext user_name lv); auto.
     - apply andb_true_iff in G; destruct G as [G Go]. apply andb_true_iff in G; destruct G as [Gc Gb].
       inv_bind H. inv_bind H. inversion H; subst.
@@ -1025,14 +1120,17 @@ Section Multi.
       + apply bsim_single.
         eapply bsim_ext; [| |apply (bsim_if ext user_name lv c c _ _ _ _ Gc (fun _ => eq_refl) Bb Bo)];
           intro rho; now rewrite exec_if.
-    - apply andb_true_iff in G; destruct G as [G Gb]. apply andb_true_iff in G; destruct G as [Gx Gi].
-      inv_bind H. inversion H; subst.
+    - apply andb_true_iff in G; destruct G as [G Go]. apply andb_true_iff in G; destruct G as [G Gb].
+      apply andb_true_iff in G; destruct G as [G Gn]. apply andb_true_iff in G; destruct G as [Gx Gi].
+      inv_bind H. inv_bind H. inversion H; subst.
       destruct (multi_flat_sound _ Hb _ _ Gb Ha) as (Gb' & Bb).
+      destruct (multi_flat_sound _ Hfo _ _ Go Ha0) as (Go' & Bo).
+      destruct (okt_inv _ _ Gx) as (Gx1 & Gx2).
       split.
-      + cbn [forallb gstmt]. rewrite (user_visible _ Gx), Gb'. rewrite !andb_true_r. cbn [andb].
-        destruct (is_call "range" it); auto. apply (gargs_mono user_name visible); auto using user_visible.
+      + cbn [forallb gstmt]. rewrite (okt_user_visible _ Gx), (giter_mono user_name visible lv it user_visible Gi), Gn, Gb', Go'.
+        reflexivity.
       + apply bsim_single.
-        eapply bsim_ext; [| |apply (bsim_for ext user_name lv x it _ _ Gi Bb)];
+        eapply bsim_ext; [| |apply (bsim_for ext user_name lv x it _ _ _ _ Gx2 Gi Bb Bo)];
           intro rho; now rewrite exec_for.
     - inversion H; subst. split.
       + simpl. rewrite andb_true_r. apply (gexp_mono user_name visible lv e user_visible G).
@@ -1041,16 +1139,17 @@ Section Multi.
       + simpl. rewrite andb_true_r. destruct e; auto. apply (gexp_mono user_name visible lv e user_visible G).
       + apply bsim_single. destruct e as [e|].
         * apply (bsim_expr ext user_name lv); auto.
-        * intros rho rho' o' R H'. simpl in *. inversion H'; subst. exists (rho, None). split; auto. split; auto.
+        * intros rho rho' o' J R H'. simpl in *. inversion H'; subst. exists (rho, None). split; auto. split; [split|]; auto.
   Qed.
 
   Lemma multi_list_sound lv b b' :
-    forallb (gstmt user_name lv) b = true -> multi_list b = Ok b' ->
-    forallb (gstmt visible lv) b' = true /\ bsim user_name (exec_list b) (exec_list b').
+    forallb (gstmt user_name plen lv) b = true -> multi_list b = Ok b' ->
+    forallb (gstmt visible plen lv) b' = true /\ bsim user_name (exec_list b) (exec_list b').
   Proof.
     apply multi_flat_sound. apply Forall_forall. intros s _. apply multi_stmt_sound.
   Qed.
 End Multi.
+
 
 (* ------------------------------------------------------------------ *)
 (* ASTRewriter: generated names                                        *)
@@ -1078,7 +1177,13 @@ Lemma iftarg_is u : is_iftarg (iftarg_name u) = true.
 Proof. apply prefix_append. Qed.
 
 Lemma iftarg_invisible u : visible (iftarg_name u) = false.
-Proof. unfold visible. rewrite iftarg_is. apply andb_false_r. Qed.
+Proof. unfold visible. rewrite iftarg_is. destruct (dunder _); reflexivity. Qed.
+
+Lemma forit_is u : is_forit (forit_name u) = true.
+Proof. apply prefix_append. Qed.
+
+Lemma forit_invisible u : visible (forit_name u) = false.
+Proof. unfold visible. rewrite forit_is. destruct (dunder _); destruct (is_iftarg _); reflexivity. Qed.
 
 Lemma hex_inj u u' : hex_of_N u = hex_of_N u' -> u = u'.
 Proof.
@@ -1092,7 +1197,8 @@ Proof. unfold iftarg_name. intro H. apply append_inj_l in H. now apply hex_inj. 
 
 Lemma visible_inv x : visible x = true -> dunder x = false /\ is_iftarg x = false.
 Proof.
-  unfold visible. intro H. apply andb_true_iff in H. destruct H as [A B].
+  unfold visible. intro H. apply andb_true_iff in H. destruct H as [H _].
+  apply andb_true_iff in H. destruct H as [A B].
   apply negb_true_iff in A, B. auto.
 Qed.
 
@@ -1173,7 +1279,13 @@ Section RwExp.
       + cbn [rw_subscript] in H. inversion H; subst. split; auto. cbn [gexp]. now rewrite Gv, Gs.
     - apply andb_true_iff in G; destruct G as [Gf Ga]. apply negb_true_iff in Gf.
       destruct (special_false _ Gf) as (F1 & F2 & F3 & F4 & F5 & F6 & F7 & F8 & F9 & F10 & F11).
-      inv_bind H. rewrite F1, F2, F3, F4, F5, F6, F8, F9, F10, F11 in H. cbn [orb] in H. inversion H; subst.
+      assert (Hs : is_seqfun f = false).
+      { unfold is_seqfun. cbn [existsb]. rewrite F1, F2, F3, F4, F5, F6. reflexivity. }
+      assert (H' : bind (mapM (rw_exp st) args) (fun args' => Ok (ECall f args')) = Ok e').
+      { rewrite F1, F2, F3, F4, F5, F6, F8, F9, F10, F11 in H. cbn [orb] in H.
+        destruct args as [|x0 [|y0 r0]]; [exact H| |destruct x0; exact H].
+        destruct x0; try exact H. rewrite Hs, andb_false_r in H. exact H. }
+      clear H. rename H' into H. inv_bind H. inversion H; subst.
       apply mapM_ok in Ha.
       assert (K : Forall2 (fun x y => (forall rho, eval rho y = eval rho x) /\ gexp visible [] y = true) args a).
       { revert Ga H0. clear H. induction Ha; intros G F; constructor.
@@ -1209,7 +1321,7 @@ Fixpoint notup (s : stmt) : bool :=
   match s with
   | SAssign (TTuple _) _ => false
   | SIf _ b o => forallb notup b && forallb notup o
-  | SFor _ _ b => forallb notup b
+  | SFor _ _ b o => forallb notup b && forallb notup o
   | _ => true
   end.
 
@@ -1222,13 +1334,13 @@ Proof.
   { induction 1; intros b' H1; simpl in H1.
     - inversion H1; auto.
     - inv_bind H1. inv_bind H1. inversion H1; subst. rewrite forallb_app, (H _ Ha), (IHForall _ Ha0). auto. }
-  induction s as [t e|x op e|c b o Hb Ho|x it b Hb|e|e] using stmt_ind2; intros l H; cbn [multi_stmt] in H.
+  induction s as [t e|x op e|c b o Hb Ho|x it b fo Hb Hfo|e|e] using stmt_ind2; intros l H; cbn [multi_stmt] in H.
   - destruct t.
     + inversion H; auto.
-    + inv_bind H. destruct e; inversion H; subst; simpl; auto using S.
+    + inv_bind H. destruct e; try (destruct (existsb _ a)); inversion H; subst; simpl; auto using S.
   - inversion H; auto.
   - inv_bind H. inv_bind H. inversion H; subst. simpl. now rewrite (F _ Hb _ Ha), (F _ Ho _ Ha0).
-  - inv_bind H. inversion H; subst. simpl. now rewrite (F _ Hb _ Ha).
+  - inv_bind H. inv_bind H. inversion H; subst. simpl. now rewrite (F _ Hb _ Ha), (F _ Hfo _ Ha0).
   - inversion H; auto.
   - inversion H; auto.
 Qed.
@@ -1240,6 +1352,17 @@ Proof.
   - inv_bind H. inv_bind H. inversion H; subst. rewrite forallb_app, (multi_notup _ _ Ha), (IHb _ Ha0). auto.
 Qed.
 
+(* every bound name is unprotected *)
+Fixpoint tgt_ok (s : stmt) : bool :=
+  match s with
+  | SAssign (TName y) _ => negb (prot y)
+  | SAssign (TTuple _) _ => true
+  | SAugAssign y _ _ => negb (prot y)
+  | SIf _ b o => forallb tgt_ok b && forallb tgt_ok o
+  | SFor y _ b o => negb (prot y) && forallb tgt_ok b && forallb tgt_ok o
+  | _ => true
+  end.
+
 Section Subst.
   Variable ext : string -> list val -> option val.
   Notation eval := (eval ext).
@@ -1247,17 +1370,28 @@ Section Subst.
   Notation exec_list := (exec_list ext).
   Notation iter_vals := (iter_vals ext).
   Variable x : string.
-  Variable c : cst.
+  (* the expression [re] the loop variable [x] is replaced by; [w] its value *)
+  Variable re : exp.
   Variable w : val.
-  Hypothesis Hw : val_of_cst c = Some w.
+  Hypothesis re_stable : forall rho y v, String.eqb y x = false -> prot y = false ->
+                                         eval (upd rho y v) re = eval rho re.
+  Hypothesis re_not_call : forall g, is_call g re = None.
+  Definition St (rho : env) : Prop := rho x = Some w /\ eval rho re = Some w.
+
+  Lemma St_upd rho y v : St rho -> String.eqb y x = false -> prot y = false -> St (upd rho y v).
+  Proof.
+    intros [S1 S2] E Py. split.
+    - unfold upd. now rewrite E.
+    - now rewrite re_stable.
+  Qed.
 
   Lemma subst_exp_sound e : forall e' rho,
-    subst_exp x (EConst c) e = Ok e' -> rho x = Some w -> eval rho e' = eval rho e.
+    subst_exp x re e = Ok e' -> St rho -> eval rho e' = eval rho e.
   Proof.
     induction e as [y|k|e IHe|op l H0|op e1 e2 IHe1 IHe2|op e IHe|op e1 e2 IHe1 IHe2|e1 e2 e3 IHe1 IHe2 IHe3|l H0|l H0|e1 e2 IHe1 IHe2|f args H0]
       using exp_ind2; intros e' rho H X; cbn [subst_exp] in H.
     - inversion H; subst. destruct (String.eqb y x) eqn:E; auto.
-      apply String.eqb_eq in E. subst. simpl. now rewrite X.
+      apply String.eqb_eq in E. subst. simpl. destruct X as [X1 X2]. now rewrite X1, X2.
     - inversion H; auto.
     - inv_bind H. inversion H; subst. simpl. eauto.
     - inv_bind H. inversion H; subst. apply mapM_ok in Ha. simpl. apply boolop_with_ext.
@@ -1279,7 +1413,7 @@ Section Subst.
   Qed.
 
   Lemma subst_args_sound args args' rho :
-    mapM (subst_exp x (EConst c)) args = Ok args' -> rho x = Some w ->
+    mapM (subst_exp x re) args = Ok args' -> St rho ->
     all_some (map (eval rho) args') = all_some (map (eval rho) args).
   Proof.
     intros H X. apply mapM_ok in H. apply all_some_map_ext.
@@ -1288,21 +1422,21 @@ Section Subst.
 
   (* whether the expression is a call of [g] is not changed *)
   Lemma subst_is_call g e e' :
-    subst_exp x (EConst c) e = Ok e' ->
+    subst_exp x re e = Ok e' ->
     match is_call g e with
-    | Some args => exists args', is_call g e' = Some args' /\ mapM (subst_exp x (EConst c)) args = Ok args'
+    | Some args => exists args', is_call g e' = Some args' /\ mapM (subst_exp x re) args = Ok args'
     | None => is_call g e' = None
     end.
   Proof.
     destruct e; cbn [subst_exp]; intro H;
       try (inv_bind H); try (inv_bind H); try (inv_bind H); try (inversion H; subst; reflexivity).
-    - inversion H. destruct (String.eqb x0 x); reflexivity.
+    - inversion H. destruct (String.eqb x0 x); simpl; auto.
     - destruct (String.eqb f x); try discriminate. inv_bind H. inversion H; subst.
       rewrite !is_call_call. destruct (String.eqb f g); eauto.
   Qed.
 
   Lemma subst_iter_sound it it' rho :
-    subst_exp x (EConst c) it = Ok it' -> rho x = Some w -> iter_vals rho it' = iter_vals rho it.
+    subst_exp x re it = Ok it' -> St rho -> iter_vals rho it' = iter_vals rho it.
   Proof.
     intros H X. pose proof (subst_is_call "range" _ _ H) as K.
     destruct (is_call "range" it) as [args|] eqn:Ci.
@@ -1312,25 +1446,26 @@ Section Subst.
   Qed.
 
   Definition subst_spec (s : stmt) : Prop :=
-    forall inner s', notup s = true -> subst_stmt inner x (EConst c) s = Ok s' ->
-    forall rho, rho x = Some w ->
-                exec s' rho = exec s rho /\ (forall rho1 r, exec s rho = Some (rho1, r) -> rho1 x = Some w).
+    forall inner s', notup s = true -> tgt_ok s = true -> subst_stmt inner x re s = Ok s' ->
+    forall rho, St rho ->
+                exec s' rho = exec s rho /\ (forall rho1 r, exec s rho = Some (rho1, r) -> St rho1).
 
   Lemma subst_list_sound b : Forall subst_spec b ->
-    forall inner b', forallb notup b = true -> mapM (subst_stmt inner x (EConst c)) b = Ok b' ->
-    forall rho, rho x = Some w ->
+    forall inner b', forallb notup b = true -> forallb tgt_ok b = true -> mapM (subst_stmt inner x re) b = Ok b' ->
+    forall rho, St rho ->
                 exec_list b' rho = exec_list b rho /\
-                (forall rho1 r, exec_list b rho = Some (rho1, r) -> rho1 x = Some w).
+                (forall rho1 r, exec_list b rho = Some (rho1, r) -> St rho1).
   Proof.
-    induction 1 as [|s r Hs Hr IH]; intros inner b' N H rho X; simpl in H.
+    induction 1 as [|s r Hs Hr IH]; intros inner b' N T H rho X; simpl in H.
     - inversion H; subst. split; auto. intros rho1 r1 E. inversion E; subst; auto.
     - simpl in N. apply andb_true_iff in N; destruct N as [Ns Nr].
+      simpl in T. apply andb_true_iff in T; destruct T as [Ts Tr].
       inv_bind H. inv_bind H. inversion H; subst.
-      destruct (Hs _ _ Ns Ha rho X) as (E1 & P1).
+      destruct (Hs _ _ Ns Ts Ha rho X) as (E1 & P1).
       rewrite !exec_list_cons, E1.
       destruct (exec s rho) as [[r1 [v|]]|] eqn:Es.
       + split; auto; intros rho1 r2 E; inversion E; subst; eauto.
-      + destruct (IH _ _ Nr Ha0 r1 (P1 _ _ eq_refl)) as (E2 & P2). split; auto.
+      + destruct (IH _ _ Nr Tr Ha0 r1 (P1 _ _ eq_refl)) as (E2 & P2). split; auto.
       + split; auto; discriminate.
   Qed.
 
@@ -1339,35 +1474,48 @@ Section Subst.
 
   Lemma subst_stmt_sound s : subst_spec s.
   Proof.
-    induction s as [t e|y op e|k b o Hb Ho|y it b Hb|e|e] using stmt_ind2; intros inner s' N H rho X;
-      cbn [subst_stmt] in H.
+    induction s as [t e|y op e|k b o Hb Ho|y it b fo Hb Hfo|e|e] using stmt_ind2; intros inner s' N T H rho X;
+      cbn [subst_stmt] in H; cbn [tgt_ok] in T.
     - destruct t as [y|tl]; [|discriminate].
       destruct (String.eqb y x) eqn:Eyx; [destruct inner; discriminate|].
       inv_bind H. inversion H; subst. simpl. rewrite (subst_exp_sound _ _ _ Ha X). split; auto.
-      intros rho1 r E. destruct (eval rho e); try discriminate. inversion E; subst. now rewrite upd_other.
+      intros rho1 r E. destruct (eval rho e); try discriminate. inversion E; subst.
+      apply St_upd; auto. now apply negb_true_iff.
     - destruct (String.eqb y x) eqn:Eyx; [destruct inner; discriminate|].
       inv_bind H. inversion H; subst. simpl. rewrite (subst_exp_sound _ _ _ Ha X). split; auto.
       intros rho1 r E. destruct (rho y); try discriminate. destruct (eval rho e); try discriminate.
-      destruct (binop_val op v v0); try discriminate. simpl in E. inversion E; subst. now rewrite upd_other.
+      destruct (binop_val op v v0); try discriminate. simpl in E. inversion E; subst.
+      apply St_upd; auto. now apply negb_true_iff.
     - simpl in N. apply andb_true_iff in N; destruct N as [Nb No].
+      apply andb_true_iff in T; destruct T as [Tb To].
       inv_bind H. inv_bind H. inv_bind H. inversion H; subst.
       rewrite !exec_if, (subst_exp_sound _ _ _ Ha X).
-      destruct (subst_list_sound _ Hb _ _ Nb Ha0 rho X) as (Eb & Pb).
-      destruct (subst_list_sound _ Ho _ _ No Ha1 rho X) as (Eo & Po).
+      destruct (subst_list_sound _ Hb _ _ Nb Tb Ha0 rho X) as (Eb & Pb).
+      destruct (subst_list_sound _ Ho _ _ No To Ha1 rho X) as (Eo & Po).
       destruct (eval rho k) as [v|]; [|split; [auto|discriminate]].
       destruct (truthy v); split; auto.
-    - simpl in N. destruct (String.eqb y x) eqn:Eyx; [destruct inner; discriminate|].
-      inv_bind H. inv_bind H. inversion H; subst.
+    - simpl in N. apply andb_true_iff in N; destruct N as [N No].
+      apply andb_true_iff in T; destruct T as [T To]. apply andb_true_iff in T; destruct T as [Ty Tb].
+      apply negb_true_iff in Ty.
+      destruct (String.eqb y x) eqn:Eyx; [destruct inner; discriminate|].
+      inv_bind H. inv_bind H. inv_bind H. inversion H; subst.
       rewrite !exec_for, (subst_iter_sound _ _ _ Ha X).
       destruct (iter_vals rho it) as [vs|]; [|split; [auto|discriminate]].
-      clear Ha. revert rho X. induction vs as [|v vs IHv]; intros rho X; simpl.
-      + split; auto. intros rho1 r E; inversion E; subst; auto.
-      + assert (X' : upd rho y v x = Some w) by (now rewrite upd_other).
-        destruct (subst_list_sound _ Hb _ _ N Ha0 _ X') as (Eb & Pb). rewrite Eb.
-        destruct (exec_list b (upd rho y v)) as [[r1 [u|]]|] eqn:Es.
-        * split; auto; intros rho1 r2 E; inversion E; subst; eauto.
-        * apply IHv. eauto.
-        * split; auto; discriminate.
+      assert (L : loop_with (exec_list a0) y vs rho = loop_with (exec_list b) y vs rho /\
+                  (forall rho1 r, loop_with (exec_list b) y vs rho = Some (rho1, r) -> St rho1)).
+      { clear Ha. revert rho X. induction vs as [|v vs IHv]; intros rho X; simpl.
+        + split; auto. intros rho1 r E; inversion E; subst; auto.
+        + assert (X' : St (upd rho y v)) by (apply St_upd; auto).
+          destruct (subst_list_sound _ Hb _ _ N Tb Ha0 _ X') as (Eb & Pb). rewrite Eb.
+          destruct (exec_list b (upd rho y v)) as [[r1 [u|]]|] eqn:Es.
+          * split; auto; intros rho1 r2 E; inversion E; subst; eauto.
+          * apply IHv. eauto.
+          * split; auto; discriminate. }
+      destruct L as (L1 & L2). unfold seq. rewrite L1.
+      destruct (loop_with (exec_list b) y vs rho) as [[r1 [u|]]|] eqn:El.
+      + split; auto; intros rho1 r2 E; inversion E; subst; eauto.
+      + apply (subst_list_sound _ Hfo _ _ No To Ha1 r1). eauto.
+      + split; auto; discriminate.
     - inv_bind H. inversion H; subst. simpl. rewrite (subst_exp_sound _ _ _ Ha X). split; auto.
       intros rho1 r E. destruct (eval rho e); try discriminate. inversion E; subst. auto.
     - destruct e as [e|].
@@ -1382,10 +1530,10 @@ Section Subst.
   Qed.
 
   Lemma subst_body_sound inner b b' rho :
-    forallb notup b = true -> mapM (subst_stmt inner x (EConst c)) b = Ok b' -> rho x = Some w ->
+    forallb notup b = true -> forallb tgt_ok b = true -> mapM (subst_stmt inner x re) b = Ok b' -> St rho ->
     exec_list b' rho = exec_list b rho.
   Proof.
-    intros N H X. apply (subst_list_sound b) with (inner := inner); auto.
+    intros N T H X. apply (subst_list_sound b) with (inner := inner); auto.
     apply Forall_forall. intros s _. apply subst_stmt_sound.
   Qed.
 End Subst.
@@ -1405,6 +1553,7 @@ Section SubstGuard.
   Variable x : string.
   Variable c : cst.
   Hypothesis Vc : valued c = true.
+  Hypothesis Px : M_A2A.prot plen x = false.
 
   Lemma subst_exp_guard l1 l2 e : forall e',
     gexp okn (l1 ++ x :: l2) e = true -> subst_exp x (EConst c) e = Ok e' -> gexp okn (l1 ++ l2) e' = true.
@@ -1455,14 +1604,14 @@ Section SubstGuard.
   Qed.
 
   Definition subst_guard_spec (s : stmt) : Prop :=
-    forall inner l1 l2 s', notup s = true -> gstmt okn (l1 ++ x :: l2) s = true ->
+    forall inner l1 l2 s', notup s = true -> gstmt okn plen (l1 ++ x :: l2) s = true ->
                            subst_stmt inner x (EConst c) s = Ok s' ->
-                           gstmt okn (l1 ++ l2) s' = true /\ notup s' = true.
+                           gstmt okn plen (l1 ++ l2) s' = true /\ notup s' = true.
 
   Lemma subst_list_guard b : Forall subst_guard_spec b ->
-    forall inner l1 l2 b', forallb notup b = true -> forallb (gstmt okn (l1 ++ x :: l2)) b = true ->
+    forall inner l1 l2 b', forallb notup b = true -> forallb (gstmt okn plen (l1 ++ x :: l2)) b = true ->
                            mapM (subst_stmt inner x (EConst c)) b = Ok b' ->
-                           forallb (gstmt okn (l1 ++ l2)) b' = true /\ forallb notup b' = true.
+                           forallb (gstmt okn plen (l1 ++ l2)) b' = true /\ forallb notup b' = true.
   Proof.
     induction 1 as [|s r Hs Hr IH]; intros inner l1 l2 b' N G H; simpl in H.
     - inversion H; auto.
@@ -1474,7 +1623,7 @@ Section SubstGuard.
 
   Lemma subst_stmt_guard s : subst_guard_spec s.
   Proof.
-    induction s as [t e|y op e|k b o Hb Ho|y it b Hb|e|e] using stmt_ind2; intros inner l1 l2 s' N G H;
+    induction s as [t e|y op e|k b o Hb Ho|y it b fo Hb Hfo|e|e] using stmt_ind2; intros inner l1 l2 s' N G H;
       cbn [subst_stmt gstmt] in G, H.
     - destruct t as [y|tl]; [|discriminate].
       destruct (String.eqb y x); [destruct inner; discriminate|].
@@ -1489,16 +1638,32 @@ Section SubstGuard.
       destruct (subst_list_guard _ Hb _ _ _ _ Nb Gb Ha0) as (G1 & N1).
       destruct (subst_list_guard _ Ho _ _ _ _ No Go Ha1) as (G2 & N2).
       cbn [gstmt notup]. now rewrite (subst_exp_guard _ _ _ _ Gc Ha), G1, G2, N1, N2.
-    - simpl in N. destruct (String.eqb y x); [destruct inner; discriminate|].
-      apply andb_true_iff in G; destruct G as [G Gb]. apply andb_true_iff in G; destruct G as [Gy Gi].
-      inv_bind H. inv_bind H. inversion H; subst.
-      destruct (subst_list_guard _ Hb true (y :: l1) l2 _ N Gb Ha0) as (G1 & N1).
-      cbn [gstmt notup]. rewrite Gy, N1. simpl in G1. rewrite G1. rewrite andb_true_r. split; auto. simpl.
-      pose proof (subst_is_call x c "range" _ _ Ha) as K.
-      destruct (is_call "range" it) as [args|] eqn:Ci.
-      + destruct K as (args' & -> & Ha'). apply (subst_args_guard _ _ _ _ Gi Ha').
-      + rewrite K. destruct it; simpl in Gi; try discriminate; cbn [subst_exp] in Ha;
-          rewrite (subst_const_list _ Gi) in Ha; simpl in Ha; inversion Ha; subst; exact Gi.
+    - simpl in N. apply andb_true_iff in N; destruct N as [N No].
+      destruct (String.eqb y x) eqn:Eyx; [destruct inner; discriminate|].
+      apply andb_true_iff in G; destruct G as [G Go]. apply andb_true_iff in G; destruct G as [G Gb].
+      apply andb_true_iff in G; destruct G as [G Gn]. apply andb_true_iff in G; destruct G as [Gy Gi].
+      inv_bind H. inv_bind H. inv_bind H. inversion H; subst.
+      destruct (subst_list_guard _ Hfo inner l1 l2 _ No Go Ha1) as (G2 & N2).
+      assert (K : giter okn plen (l1 ++ l2) a = true /\ name_iter plen a = name_iter plen it).
+      { unfold giter in *. pose proof (subst_is_call x (EConst c) (fun _ => eq_refl) "range" _ _ Ha) as K.
+        destruct (is_call "range" it) as [args|] eqn:Ci.
+        - destruct K as (args' & Ci' & Ha'). rewrite Ci'. split; [apply (subst_args_guard _ _ _ _ Gi Ha')|].
+          apply is_call_some in Ci, Ci'. subst. reflexivity.
+        - rewrite K. assert (a = it).
+          { apply orb_true_iff in Gi. destruct Gi as [Gi|Gi].
+            - destruct it; simpl in Gi; try discriminate; cbn [subst_exp] in Ha;
+                rewrite (subst_const_list _ Gi) in Ha; simpl in Ha; inversion Ha; subst; auto.
+            - destruct it; simpl in Gi; try discriminate. destruct (M_A2A.prot plen x0) eqn:Pz; try discriminate.
+              cbn [subst_exp] in Ha. destruct (String.eqb x0 x) eqn:E.
+              + apply String.eqb_eq in E. subst. congruence.
+              + inversion Ha; auto. }
+          subst a. split; auto. }
+      destruct K as (Gi' & En).
+      cbn [gstmt notup]. rewrite Gy, Gi', N2, G2, En. unfold body_lv in *. rewrite En.
+      destruct (name_iter plen it) eqn:Ni.
+      + destruct (subst_list_guard _ Hb true l1 l2 _ N Gb Ha0) as (G1 & N1). rewrite G1, N1.
+        rewrite existsb_app in *. simpl in Gn. rewrite Eyx in Gn. simpl in Gn. rewrite Gn. auto.
+      + destruct (subst_list_guard _ Hb true (y :: l1) l2 _ N Gb Ha0) as (G1 & N1). simpl in G1. rewrite G1, N1. auto.
     - inv_bind H. inversion H; subst. cbn [gstmt notup]. split; auto. apply (subst_exp_guard _ _ _ _ G Ha).
     - destruct e as [e|].
       + inv_bind H. inversion H; subst. cbn [gstmt notup]. split; auto. apply (subst_exp_guard _ _ _ _ G Ha).
@@ -1506,14 +1671,155 @@ Section SubstGuard.
   Qed.
 
   Lemma subst_body_guard inner lv b b' :
-    forallb notup b = true -> forallb (gstmt okn (x :: lv)) b = true ->
+    forallb notup b = true -> forallb (gstmt okn plen (x :: lv)) b = true ->
     mapM (subst_stmt inner x (EConst c)) b = Ok b' ->
-    forallb (gstmt okn lv) b' = true /\ forallb notup b' = true.
+    forallb (gstmt okn plen lv) b' = true /\ forallb notup b' = true.
   Proof.
     intros N G H. apply (subst_list_guard b) with (inner := inner) (l1 := []) (l2 := lv); auto.
     apply Forall_forall. intros s _. apply subst_stmt_guard.
   Qed.
 End SubstGuard.
+
+(* the guard after the substitution of the variable of a loop over a typed argument: the element
+   expression a[k] may stand wherever the variable stood (it never indexes a subscript) *)
+Section SubstGuardT.
+  Variable okn : string -> bool.
+  Variable x : string.
+  Variable re : exp.
+  Hypothesis Gre : forall lv, gexp okn lv re = true.
+  Hypothesis re_not_call : forall g, is_call g re = None.
+  Hypothesis Px : M_A2A.prot plen x = false.
+
+  Lemma subst_exp_guardT lv e : forall e',
+    existsb (String.eqb x) lv = false ->
+    gexp okn lv e = true -> subst_exp x re e = Ok e' -> gexp okn lv e' = true.
+  Proof.
+    intros e' Nx. revert e'.
+    induction e as [y|k|e IHe|op l H0|op e1 e2 IHe1 IHe2|op e IHe|op e1 e2 IHe1 IHe2|e1 e2 e3 IHe1 IHe2 IHe3|l H0|l H0|e1 e2 IHe1 IHe2|f args H0]
+      using exp_ind2; intros e' G H; cbn [gexp subst_exp] in G, H.
+    - inversion H; subst. destruct (String.eqb y x); auto.
+    - inversion H; subst; auto.
+    - discriminate.
+    - inv_bind H. inversion H; subst. apply mapM_ok in Ha. cbn [gexp].
+      apply (forallb_Forall2 _ _ _ _ _ Ha H0 G).
+    - apply andb_true_iff in G; destruct G as [G Gb]. apply andb_true_iff in G; destruct G as [Gop Ga].
+      inv_bind H. inv_bind H. inversion H; subst. cbn [gexp]. now rewrite Gop, (IHe1 _ Ga Ha), (IHe2 _ Gb Ha0).
+    - inv_bind H. inversion H; subst. cbn [gexp]. eauto.
+    - apply andb_true_iff in G; destruct G as [Ga Gb].
+      inv_bind H. inv_bind H. inversion H; subst. cbn [gexp]. now rewrite (IHe1 _ Ga Ha), (IHe2 _ Gb Ha0).
+    - apply andb_true_iff in G; destruct G as [G Gf]. apply andb_true_iff in G; destruct G as [Gc Gt].
+      inv_bind H. inv_bind H. inv_bind H. inversion H; subst. cbn [gexp].
+      now rewrite (IHe1 _ Gc Ha), (IHe2 _ Gt Ha0), (IHe3 _ Gf Ha1).
+    - inv_bind H. inversion H; subst. apply mapM_ok in Ha. cbn [gexp].
+      apply (forallb_Forall2 _ _ _ _ _ Ha H0 G).
+    - inv_bind H. inversion H; subst. apply mapM_ok in Ha. cbn [gexp].
+      apply (forallb_Forall2 _ _ _ _ _ Ha H0 G).
+    - apply andb_true_iff in G; destruct G as [Gv Gs].
+      inv_bind H. inv_bind H. inversion H; subst. cbn [gexp]. rewrite (IHe1 _ Gv Ha). simpl.
+      destruct e2; try discriminate; cbn [subst_exp] in Ha0; inversion Ha0; subst.
+      + apply andb_true_iff in Gs; destruct Gs as [Gx Gl].
+        destruct (String.eqb x0 x) eqn:E.
+        * apply String.eqb_eq in E. subst x0. clear - Nx Gl. exfalso.
+          congruence.
+        * now rewrite Gx, Gl.
+      + exact Gs.
+    - apply andb_true_iff in G; destruct G as [Gf Ga].
+      destruct (String.eqb f x); try discriminate. inv_bind H. inversion H; subst. cbn [gexp]. rewrite Gf. simpl.
+      apply mapM_ok in Ha. apply (forallb_Forall2 _ _ _ _ _ Ha H0 Ga).
+  Qed.
+
+  Lemma subst_args_guardT lv args args' :
+    existsb (String.eqb x) lv = false ->
+    forallb (gexp okn lv) args = true -> mapM (subst_exp x re) args = Ok args' ->
+    forallb (gexp okn lv) args' = true.
+  Proof.
+    intros Nx G H. apply mapM_ok in H. revert G. induction H; intro G; simpl in *; auto.
+    apply andb_true_iff in G; destruct G. rewrite (subst_exp_guardT _ _ _ Nx H1 H), IHForall2; auto.
+  Qed.
+
+  Lemma subst_const_listT l : forallb valued_const l = true -> mapM (subst_exp x re) l = Ok l.
+  Proof.
+    induction l; simpl; auto. intro H. apply andb_true_iff in H; destruct H as [H1 H2].
+    rewrite (IHl H2). destruct a; simpl in *; try discriminate. reflexivity.
+  Qed.
+
+  Definition subst_guardT_spec (s : stmt) : Prop :=
+    forall inner lv s', notup s = true -> existsb (String.eqb x) lv = false ->
+                        gstmt okn plen lv s = true -> subst_stmt inner x re s = Ok s' ->
+                        gstmt okn plen lv s' = true /\ notup s' = true.
+
+  Lemma subst_list_guardT b : Forall subst_guardT_spec b ->
+    forall inner lv b', forallb notup b = true -> existsb (String.eqb x) lv = false ->
+                        forallb (gstmt okn plen lv) b = true -> mapM (subst_stmt inner x re) b = Ok b' ->
+                        forallb (gstmt okn plen lv) b' = true /\ forallb notup b' = true.
+  Proof.
+    induction 1 as [|s r Hs Hr IH]; intros inner lv b' N Nx G H; simpl in H.
+    - inversion H; auto.
+    - simpl in N, G. apply andb_true_iff in N; destruct N as [Ns Nr]. apply andb_true_iff in G; destruct G as [Gs Gr].
+      inv_bind H. inv_bind H. inversion H; subst.
+      destruct (Hs _ _ _ Ns Nx Gs Ha) as (G1 & N1). destruct (IH _ _ _ Nr Nx Gr Ha0) as (G2 & N2).
+      simpl. now rewrite G1, N1, G2, N2.
+  Qed.
+
+  Lemma subst_stmt_guardT s : subst_guardT_spec s.
+  Proof.
+    induction s as [t e|y op e|k b o Hb Ho|y it b fo Hb Hfo|e|e] using stmt_ind2; intros inner lv s' N Nx G H;
+      cbn [subst_stmt gstmt] in G, H.
+    - destruct t as [y|tl]; [|discriminate].
+      destruct (String.eqb y x); [destruct inner; discriminate|].
+      apply andb_true_iff in G; destruct G as [Gy Ge].
+      inv_bind H. inversion H; subst. cbn [gstmt notup]. now rewrite Gy, (subst_exp_guardT _ _ _ Nx Ge Ha).
+    - destruct (String.eqb y x); [destruct inner; discriminate|].
+      apply andb_true_iff in G; destruct G as [G Ge]. apply andb_true_iff in G; destruct G as [Gy Gop].
+      inv_bind H. inversion H; subst. cbn [gstmt notup]. now rewrite Gy, Gop, (subst_exp_guardT _ _ _ Nx Ge Ha).
+    - simpl in N. apply andb_true_iff in N; destruct N as [Nb No].
+      apply andb_true_iff in G; destruct G as [G Go]. apply andb_true_iff in G; destruct G as [Gc Gb].
+      inv_bind H. inv_bind H. inv_bind H. inversion H; subst.
+      destruct (subst_list_guardT _ Hb _ _ _ Nb Nx Gb Ha0) as (G1 & N1).
+      destruct (subst_list_guardT _ Ho _ _ _ No Nx Go Ha1) as (G2 & N2).
+      cbn [gstmt notup]. now rewrite (subst_exp_guardT _ _ _ Nx Gc Ha), G1, G2, N1, N2.
+    - simpl in N. apply andb_true_iff in N; destruct N as [N No].
+      destruct (String.eqb y x) eqn:Eyx; [destruct inner; discriminate|].
+      apply andb_true_iff in G; destruct G as [G Go]. apply andb_true_iff in G; destruct G as [G Gb].
+      apply andb_true_iff in G; destruct G as [G Gn]. apply andb_true_iff in G; destruct G as [Gy Gi].
+      inv_bind H. inv_bind H. inv_bind H. inversion H; subst.
+      destruct (subst_list_guardT _ Hfo inner lv _ No Nx Go Ha1) as (G2 & N2).
+      assert (K : giter okn plen lv a = true /\ name_iter plen a = name_iter plen it).
+      { unfold giter in *. pose proof (subst_is_call x re re_not_call "range" _ _ Ha) as K.
+        destruct (is_call "range" it) as [args|] eqn:Ci.
+        - destruct K as (args' & Ci' & Ha'). rewrite Ci'. split; [apply (subst_args_guardT _ _ _ Nx Gi Ha')|].
+          apply is_call_some in Ci, Ci'. subst. reflexivity.
+        - rewrite K. assert (a = it).
+          { apply orb_true_iff in Gi. destruct Gi as [Gi|Gi].
+            - destruct it; simpl in Gi; try discriminate; cbn [subst_exp] in Ha;
+                rewrite (subst_const_listT _ Gi) in Ha; simpl in Ha; inversion Ha; subst; auto.
+            - destruct it; simpl in Gi; try discriminate. destruct (M_A2A.prot plen x0) eqn:Pz; try discriminate.
+              cbn [subst_exp] in Ha. destruct (String.eqb x0 x) eqn:E.
+              + apply String.eqb_eq in E. subst. congruence.
+              + inversion Ha; auto. }
+          subst a. split; auto. }
+      destruct K as (Gi' & En).
+      cbn [gstmt notup]. rewrite Gy, Gi', N2, G2, En, Gn. unfold body_lv in *. rewrite En.
+      destruct (name_iter plen it) eqn:Ni.
+      + destruct (subst_list_guardT _ Hb true lv _ N Nx Gb Ha0) as (G1 & N1). rewrite G1, N1. auto.
+      + assert (Nx' : existsb (String.eqb x) (y :: lv) = false).
+        { simpl. rewrite String.eqb_sym, Eyx. exact Nx. }
+        destruct (subst_list_guardT _ Hb true (y :: lv) _ N Nx' Gb Ha0) as (G1 & N1). rewrite G1, N1. auto.
+    - inv_bind H. inversion H; subst. cbn [gstmt notup]. split; auto. apply (subst_exp_guardT _ _ _ Nx G Ha).
+    - destruct e as [e|].
+      + inv_bind H. inversion H; subst. cbn [gstmt notup]. split; auto. apply (subst_exp_guardT _ _ _ Nx G Ha).
+      + inversion H; subst. auto.
+  Qed.
+
+  Lemma subst_body_guardT inner b b' :
+    forallb notup b = true -> forallb (gstmt okn plen []) b = true ->
+    mapM (subst_stmt inner x re) b = Ok b' ->
+    forallb (gstmt okn plen []) b' = true /\ forallb notup b' = true.
+  Proof.
+    intros N G H. apply (subst_list_guardT b) with (inner := inner) (lv := []); auto.
+    apply Forall_forall. intros s _. apply subst_stmt_guardT.
+  Qed.
+End SubstGuardT.
 
 (* ------------------------------------------------------------------ *)
 (* ASTRewriter on statements                                           *)
@@ -1529,16 +1835,51 @@ Section Rw.
      lo < K <= hi (the counter before / after) *)
   Definition stmt_shape (lo hi : N) (s : stmt) : Prop :=
     match s with
-    | SAssign (TName y) _ => is_iftarg y = true -> exists k, (lo < k <= hi)%N /\ y = iftarg_name k
+    | SAssign (TName y) _ =>
+        prot y = false /\ (is_iftarg y = true -> exists k, (lo < k <= hi)%N /\ y = iftarg_name k)
     | SReturn _ | SExpr _ => True
     | _ => False
     end.
   Definition shape lo hi (l : list stmt) : Prop := Forall (stmt_shape lo hi) l.
 
+  (* the types the rewriter's environment records for the typed tuple arguments are their
+     annotations, whatever else has been bound since *)
+  Definition st_ok (st : rstate) : Prop :=
+    forall a n, plen a = Some n ->
+                exists l, assoc (tys st) a = Some (TyNode (ESubscript (EName "Tuple") (ETuple l))) /\
+                          List.length l = n.
+
+  Lemma st_ok_tys st st' : tys st' = tys st -> st_ok st -> st_ok st'.
+  Proof. intros E S a n Pa. rewrite E. auto. Qed.
+
+  Lemma st_ok_cons st st' x t : prot x = false -> tys st' = (x, t) :: tys st -> st_ok st -> st_ok st'.
+  Proof.
+    intros Px E S a n Pa. rewrite E. simpl. destruct (String.eqb x a) eqn:Exa; auto.
+    apply String.eqb_eq in Exa. subst. unfold M_A2A.prot in Px. rewrite Pa in Px. discriminate.
+  Qed.
+
+  Lemma st_ok_set_type st x t : prot x = false -> st_ok st -> st_ok (set_type st x t).
+  Proof. intros Px. apply (st_ok_cons st _ x t Px). reflexivity. Qed.
+
+  Lemma st_ok_set_constant st x v : prot x = false -> st_ok st -> st_ok (set_constant st x v).
+  Proof.
+    intros Px S. unfold set_constant.
+    destruct (match v with EConst k => (CvRaw k, TyRaw) | EConstNode e => (CvNode e, TyNode e) | e => (CvNode e, TyNode e) end) as [c t].
+    destruct (has_key (tys st) x).
+    - apply (st_ok_tys st); auto.
+    - apply (st_ok_cons st _ x t Px); auto.
+  Qed.
+
+  Lemma tmp_not_prot x : prot (tmp x) = false.
+  Proof. apply not_user_not_prot. reflexivity. Qed.
+  Lemma iftarg_not_prot u : prot (iftarg_name u) = false.
+  Proof. apply not_user_not_prot. reflexivity. Qed.
+
   Lemma shape_mono lo hi lo' hi' l : (lo' <= lo)%N -> (hi <= hi')%N -> shape lo hi l -> shape lo' hi' l.
   Proof.
     intros L1 L2 S. induction S as [|s l Hs Hl IH]; constructor; auto.
     destruct s as [[y|]| | | | |]; simpl in *; auto.
+    destruct Hs as [Hp Hs]. split; auto.
     intro I. destruct (Hs I) as (k & K & E). exists k. split; auto. lia.
   Qed.
 
@@ -1553,7 +1894,7 @@ Section Rw.
   Proof.
     intros S L. induction S as [|s l Hs Hl IH]; constructor; auto.
     destruct s as [[y|]| | | | |]; simpl in *; try discriminate.
-    intro E. inversion E; subst y. destruct (Hs (iftarg_is u)) as (k & K & Ek).
+    intro E. inversion E; subst y. destruct Hs as [_ Hs]. destruct (Hs (iftarg_is u)) as (k & K & Ek).
     apply iftarg_inj in Ek. lia.
   Qed.
 
@@ -1562,18 +1903,19 @@ Section Rw.
 
   (* ---------- self-referencing assignments and augmented assignments ---------- *)
   Lemma bsim_tmp x e v :
-    visible x = true -> gexp visible [] e = true -> (forall rho, eval rho v = eval rho e) ->
+    visible x = true -> prot x = false -> gexp visible [] e = true -> (forall rho, eval rho v = eval rho e) ->
     bsim visible (exec (SAssign (TName x) e))
                  (exec_list [SAssign (TName (tmp x)) v; SAssign (TName x) (EName (tmp x))]).
   Proof.
-    intros Vx G E rho rho' o' R H.
+    intros Vx Px G E rho rho' o' J R H.
     rewrite exec_list_cons in H. cbn [M_A2A.exec] in H. rewrite E in H.
     cbn [M_A2A.exec]. rewrite (eval_agree ext visible [] e rho rho' G R).
     destruct (eval rho' e) as [w|]; try discriminate.
     rewrite exec_list_single in H. cbn [M_A2A.exec M_A2A.eval] in H.
     unfold upd at 1 in H. rewrite String.eqb_refl in H. inversion H; subst.
-    exists (upd rho x w, None). split; auto. split; simpl; auto.
-    apply Ragree_upd. apply Ragree_upd_r; auto. apply tmp_invisible.
+    exists (upd rho x w, None). split; auto. split; [split|]; simpl; auto.
+    - apply Ragree_upd. apply Ragree_upd_r; auto. apply tmp_invisible.
+    - apply Inv_upd; auto. apply Inv_upd; auto. apply tmp_not_prot.
   Qed.
 
   Lemma aug_as_assign x op e rho :
@@ -1611,34 +1953,62 @@ Section Rw.
     - inversion H; subst. split; [reflexivity|split; auto].
   Qed.
 
-  Lemma one_shape lo hi x e : visible x = true -> stmt_shape lo hi (SAssign (TName x) e).
-  Proof. intros V I. destruct (visible_inv _ V). congruence. Qed.
+  Lemma one_shape lo hi x e : visible x = true -> prot x = false -> stmt_shape lo hi (SAssign (TName x) e).
+  Proof. intros V Px. split; auto. intro I. destruct (visible_inv _ V). congruence. Qed.
 
   Lemma tmp_shape lo hi x e : stmt_shape lo hi (SAssign (TName (tmp x)) e).
   Proof.
+    split; [apply tmp_not_prot|].
     intro I. pose proof (tmp_dunder x) as D. unfold is_iftarg, dunder, iftarg_prefix, tmp in *.
     simpl in *. destruct x as [|a s]; simpl in *; discriminate.
   Qed.
 
-  Lemma rw_assign_sound st x e l st' :
-    visible x = true -> gexp visible [] e = true -> rw_assign st x e = Ok (l, st') ->
-    uq st' = uq st /\ shape (uq st) (uq st') l /\ forallb (gstmt anyn []) l = true /\
-    bsim visible (exec (SAssign (TName x) e)) (exec_list l).
+  Lemma assign_env_st st x e st1 e1 :
+    prot x = false -> assign_env st x e = Ok (st1, e1) -> st_ok st -> st_ok st1.
   Proof.
-    intros Vx G H. unfold rw_assign in H. inv_bind H. destruct a as [st1 e1]. inv_bind H.
+    intros Px H S.
+    assert (T : forall l, (e = ETuple l \/ e = EList l) -> st_ok st1).
+    { intros l El. assert (H' : bind (rw_exp st e) (fun r1 =>
+                 if Bool.eqb (name_in x e) (name_in x r1) then Ok (set_constant st x r1, r1) else Unmod) = Ok (st1, e1)).
+      { destruct El; subst e; exact H. }
+      inv_bind H'. destruct (Bool.eqb _ _); try discriminate. inversion H'; subst.
+      apply st_ok_set_constant; auto. }
+    destruct e; try (eapply T; eauto; fail); simpl in H;
+      try (inversion H; subst; apply st_ok_set_type; auto; fail).
+    - destruct (in_env st x0).
+      + destruct (assoc (tys st) x0); inversion H; subst. apply st_ok_set_type; auto.
+      + inversion H; subst. apply st_ok_set_type; auto.
+    - inversion H; subst. apply (st_ok_set_constant st x (EConst c)); auto.
+    - inversion H; subst. apply (st_ok_set_constant st x (EConstNode e)); auto.
+  Qed.
+
+  Lemma tmp_guard x a :
+    prot x = false -> gexp anyn [] a = true ->
+    forallb (gstmt anyn plen []) [SAssign (TName (tmp x)) a; SAssign (TName x) (EName (tmp x))] = true.
+  Proof.
+    intros Px Ga. cbn [forallb gstmt gexp]. rewrite Ga. unfold okt, anyn. rewrite tmp_not_prot, Px. reflexivity.
+  Qed.
+
+  Lemma rw_assign_sound st x e l st' :
+    visible x = true -> prot x = false -> gexp visible [] e = true -> rw_assign st x e = Ok (l, st') ->
+    uq st' = uq st /\ shape (uq st) (uq st') l /\ forallb (gstmt anyn plen []) l = true /\
+    bsim visible (exec (SAssign (TName x) e)) (exec_list l) /\ (st_ok st -> st_ok st').
+  Proof.
+    intros Vx Px G H. unfold rw_assign in H. inv_bind H. destruct a as [st1 e1]. inv_bind H.
+    pose proof (assign_env_st _ _ _ _ _ Px Ha) as Sst.
     destruct (assign_env_ok _ _ _ _ _ G Ha) as (U & E1 & G1).
     destruct (rw_exp_sound ext st1 _ _ G1 Ha0) as (E2 & G2).
     assert (Ev : forall rho, eval rho a = eval rho e) by (intro rho; now rewrite E2, E1).
     assert (Ga : gexp anyn [] a = true) by (apply (gexp_mono visible anyn); auto).
     destruct (is_seq_lit e && negb (exp_eqb a e1)); try discriminate.
     destruct (name_in x e1 && in_env st x && negb (is_constant e)); inversion H; subst.
-    - split; auto. split; [|split].
+    - split; auto. split; [|split; [|split]]; auto.
       + constructor; [apply tmp_shape|constructor; [apply one_shape; auto|constructor]].
-      + simpl. now rewrite Ga.
+      + exact (tmp_guard x a Px Ga).
       + apply bsim_tmp; auto.
-    - split; auto. split; [|split].
+    - split; auto. split; [|split; [|split]]; auto.
       + constructor; [apply one_shape; auto|constructor].
-      + simpl. now rewrite Ga.
+      + cbn [forallb gstmt]. rewrite Ga. unfold okt, anyn. rewrite Px. reflexivity.
       + apply bsim_single. apply (bsim_assign ext visible []); auto.
   Qed.
 
@@ -1668,7 +2038,7 @@ Section Rw.
     - inversion H; subst. right. exists (drop2 y). split; auto. intro V.
       destruct (visible_inv _ V) as [D' _]. rewrite D' in D. discriminate.
     - destruct (is_iftarg y) eqn:I; inversion H; subst.
-      + left. split; auto. unfold visible. rewrite I. apply andb_false_r.
+      + left. split; auto. unfold visible. rewrite I. destruct (dunder y); reflexivity.
       + right. exists y. auto.
   Qed.
 
@@ -1686,16 +2056,19 @@ Section Rw.
     - apply IH. exact S2.
   Qed.
 
-  Lemma WB_guard t l bl : Forall2 (WB t) l bl -> forallb (gstmt anyn []) l = true -> forallb (gstmt anyn []) bl = true.
+  Lemma WB_guard t l bl : Forall2 (WB t) l bl -> forallb (gstmt anyn plen []) l = true -> forallb (gstmt anyn plen []) bl = true.
   Proof.
     induction 1; intro G; simpl in *; auto. apply andb_true_iff in G; destruct G as [G1 G2].
-    rewrite IHForall2 by auto. destruct H as (y0 & e & o & -> & -> & _). simpl in *. now rewrite G1.
+    rewrite IHForall2 by auto. destruct H as (y0 & e & o & -> & -> & _). simpl in *.
+    apply andb_true_iff in G1; destruct G1 as [G1a G1b]. now rewrite G1a, G1b.
   Qed.
 
-  Lemma WE_guard t l ol : Forall2 (WE t) l ol -> forallb (gstmt anyn []) l = true -> forallb (gstmt anyn []) ol = true.
+  Lemma WE_guard t l ol : Forall2 (WE t) l ol -> forallb (gstmt anyn plen []) l = true -> forallb (gstmt anyn plen []) ol = true.
   Proof.
     induction 1; intro G; simpl in *; auto. apply andb_true_iff in G; destruct G as [G1 G2].
-    rewrite IHForall2 by auto. destruct H as (y0 & e & -> & [[-> _]|(o & -> & _)]); simpl in *; now rewrite G1.
+    rewrite IHForall2 by auto. destruct H as (y0 & e & -> & [[-> _]|(o & -> & _)]); simpl in *.
+    - now rewrite G1.
+    - apply andb_true_iff in G1; destruct G1 as [G1a G1b]. now rewrite G1a, G1b.
   Qed.
 
   Lemma upd_keep rho y v t : y <> t -> upd rho y v t = rho t.
@@ -1798,6 +2171,22 @@ Section Rw.
 
   Lemma shape_any lo hi l : shape lo hi l -> Forall (fun b => exists lo hi, stmt_shape lo hi b) l.
   Proof. induction 1; constructor; eauto. Qed.
+
+  (* the rewriter's output never binds a protected name *)
+  Lemma exec_shape_inv l : Forall (fun b => exists lo hi, stmt_shape lo hi b) l ->
+    forall rho rho1 r, exec_list l rho = Some (rho1, r) -> Inv rho -> Inv rho1.
+  Proof.
+    induction 1 as [|b l Hb Hl IH]; intros rho rho1 r H J.
+    - inversion H; subst; auto.
+    - rewrite exec_list_cons in H. destruct Hb as (lo & hi & Sh).
+      destruct b as [[y|]| | | | |]; simpl in Sh; try contradiction; cbn [M_A2A.exec] in H.
+      + destruct Sh as [Py _]. destruct (eval rho e); try discriminate. apply (IH _ _ _ H). apply Inv_upd; auto.
+      + destruct (eval rho e); try discriminate. inversion H; subst; auto.
+      + destruct e as [e|]; [|apply (IH _ _ _ H J)].
+        destruct (is_call "print" e).
+        * destruct (all_some _); try discriminate. apply (IH _ _ _ H J).
+        * destruct (eval rho e); try discriminate. apply (IH _ _ _ H J).
+  Qed.
 End Rw.
 
 Section RwMain.
@@ -1808,32 +2197,79 @@ Section RwMain.
   Notation iter_vals := (iter_vals ext).
 
   Definition rw_post (st : rstate) (l : list stmt) (st' : rstate) (f : env -> outcome) : Prop :=
-    (uq st <= uq st')%N /\ shape (uq st) (uq st') l /\ forallb (gstmt anyn []) l = true /\
-    bsim visible f (exec_list l).
+    (uq st <= uq st')%N /\ shape (uq st) (uq st') l /\ forallb (gstmt anyn plen []) l = true /\
+    bsim visible f (exec_list l) /\ st_ok st'.
 
   Definition rw_spec (n : nat) : Prop :=
-    forall s st l st', gstmt visible [] s = true -> notup s = true -> rw_stmt n st s = Ok (l, st') ->
-                       rw_post st l st' (exec s).
+    forall s st l st', gstmt visible plen [] s = true -> notup s = true -> st_ok st ->
+                       rw_stmt n st s = Ok (l, st') -> rw_post st l st' (exec s).
   Definition rw_list_spec (n : nat) : Prop :=
-    forall b st l st', forallb (gstmt visible []) b = true -> forallb notup b = true ->
+    forall b st l st', forallb (gstmt visible plen []) b = true -> forallb notup b = true -> st_ok st ->
                        rw_list_with (rw_stmt n) st b = Ok (l, st') -> rw_post st l st' (exec_list b).
 
   Lemma rw_list_of_spec n : rw_spec n -> rw_list_spec n.
   Proof.
-    intros IH b. induction b as [|s r IHb]; intros st l st' G N H; simpl in H.
+    intros IH b. induction b as [|s r IHb]; intros st l st' G N S H; simpl in H.
     - inversion H; subst. split; [apply N.le_refl|]. split; [constructor|]. split; [reflexivity|].
-      exact (bsim_nil visible).
+      split; auto. exact (bsim_nil visible).
     - simpl in G, N. apply andb_true_iff in G; destruct G as [Gs Gr]. apply andb_true_iff in N; destruct N as [Ns Nr].
       inv_bind H. destruct a as [l1 st1]. inv_bind H. destruct a as [l2 st2]. inversion H; subst.
-      destruct (IH _ _ _ _ Gs Ns Ha) as (U1 & S1 & G1 & B1).
-      destruct (IHb _ _ _ Gr Nr Ha0) as (U2 & S2 & G2 & B2).
-      split; [lia|]. split; [|split].
+      destruct (IH _ _ _ _ Gs Ns S Ha) as (U1 & S1 & G1 & B1 & T1).
+      destruct (IHb _ _ _ Gr Nr T1 Ha0) as (U2 & S2 & G2 & B2 & T2).
+      split; [lia|]. split; [|split; [|split]]; auto.
       + apply shape_app; [apply (shape_mono (uq st) (uq st1)) | apply (shape_mono (uq st1) (uq st'))]; auto; lia.
       + now rewrite forallb_app, G1, G2.
       + apply bsim_list_cons; auto.
   Qed.
 
-  (* ---------- the iterator of a guarded loop: constants, the same in every environment ---------- *)
+  (* ---------- what the guard says about bound names ---------- *)
+  Lemma gstmt_tgt_ok okn s : forall lv, gstmt okn plen lv s = true -> tgt_ok s = true.
+  Proof.
+    induction s as [t e|x op e|c b o Hb Ho|x it b fo Hb Hfo|e|e] using stmt_ind2; intros lv G;
+      cbn [gstmt tgt_ok] in *; auto.
+    - destruct t as [x|tl]; auto. apply andb_true_iff in G; destruct G as [Gx _].
+      destruct (okt_inv _ _ Gx) as (_ & Px). now rewrite Px.
+    - apply andb_true_iff in G; destruct G as [G _]. apply andb_true_iff in G; destruct G as [Gx _].
+      destruct (okt_inv _ _ Gx) as (_ & Px). now rewrite Px.
+    - apply andb_true_iff in G; destruct G as [G Go]. apply andb_true_iff in G; destruct G as [_ Gb].
+      assert (forallb tgt_ok b = true) as ->.
+      { clear - Hb Gb. induction Hb; simpl in *; auto. apply andb_true_iff in Gb; destruct Gb. rewrite (H lv), IHHb; auto. }
+      clear - Ho Go. induction Ho; simpl in *; auto. apply andb_true_iff in Go; destruct Go. rewrite (H lv), IHHo; auto.
+    - apply andb_true_iff in G; destruct G as [G Go]. apply andb_true_iff in G; destruct G as [G Gb].
+      apply andb_true_iff in G; destruct G as [G _]. apply andb_true_iff in G; destruct G as [Gx _].
+      destruct (okt_inv _ _ Gx) as (_ & Px). rewrite Px. simpl.
+      assert (forallb tgt_ok b = true) as ->.
+      { clear - Hb Gb. induction Hb; simpl in *; auto. apply andb_true_iff in Gb; destruct Gb.
+        rewrite (H _ H0), IHHb; auto. }
+      clear - Hfo Go. induction Hfo; simpl in *; auto. apply andb_true_iff in Go; destruct Go. rewrite (H lv), IHHfo; auto.
+  Qed.
+
+  Lemma glist_tgt_ok okn lv l : forallb (gstmt okn plen lv) l = true -> forallb tgt_ok l = true.
+  Proof.
+    induction l; simpl; auto. intro G. apply andb_true_iff in G; destruct G.
+    rewrite (gstmt_tgt_ok okn a lv), IHl; auto.
+  Qed.
+
+  Lemma tgt_assigns a s : prot a = true -> tgt_ok s = true -> assigns_name a s = false.
+  Proof.
+    intro Pa.
+    assert (NE : forall y, prot y = false -> String.eqb y a = false).
+    { intros y Py. destruct (String.eqb y a) eqn:E; auto. apply String.eqb_eq in E. subst. congruence. }
+    induction s as [t e|x op e|c b o Hb Ho|x it b fo Hb Hfo|e|e] using stmt_ind2; intro T;
+      cbn [tgt_ok assigns_name] in *; auto.
+    - destruct t as [x|tl]; auto. apply NE. now apply negb_true_iff.
+    - apply NE. now apply negb_true_iff.
+    - apply andb_true_iff in T; destruct T as [Tb To].
+      assert (existsb (assigns_name a) b = false) as ->.
+      { clear - Hb Tb. induction Hb; simpl in *; auto. apply andb_true_iff in Tb; destruct Tb. rewrite H, IHHb; auto. }
+      clear - Ho To. induction Ho; simpl in *; auto. apply andb_true_iff in To; destruct To. rewrite H, IHHo; auto.
+    - apply andb_true_iff in T; destruct T as [T To]. apply andb_true_iff in T; destruct T as [_ Tb].
+      assert (existsb (assigns_name a) b = false) as ->.
+      { clear - Hb Tb. induction Hb; simpl in *; auto. apply andb_true_iff in Tb; destruct Tb. rewrite H, IHHb; auto. }
+      clear - Hfo To. induction Hfo; simpl in *; auto. apply andb_true_iff in To; destruct To. rewrite H, IHHfo; auto.
+  Qed.
+
+  (* ---------- the elements a guarded loop is unrolled over ---------- *)
   Lemma const_list_inv st l :
     forallb valued_const l = true ->
     exists cs, l = map EConst cs /\ forallb valued cs = true /\ mapM (rw_exp st) l = Ok l.
@@ -1873,77 +2309,183 @@ Section RwMain.
       + simpl. rewrite Hz, A. reflexivity.
   Qed.
 
-  Lemma rw_iter_sound st it elems :
-    (match is_call "range" it with
-     | Some args => forallb (gexp visible []) args
-     | None => const_iter it end) = true ->
-    rw_iter st it = Ok elems ->
-    exists cs vs, elems = map EConst cs /\ forallb valued cs = true /\
-                  Forall2 (fun c v => val_of_cst c = Some v) cs vs /\
-                  forall rho, iter_vals rho it = Some vs.
+  (* an element expression: it is substituted for the loop variable as it is, reads no name the
+     program may bind, and is no call *)
+  Definition elem_ok (r : exp) : Prop :=
+    loop_val r = r /\ (forall lv, gexp visible lv r = true) /\ (forall g, is_call g r = None) /\
+    (forall rho y v, prot y = false -> eval (upd rho y v) r = eval rho r).
+
+  Lemma elem_ok_const c : valued c = true -> elem_ok (EConst c).
+  Proof. intro V. split; [reflexivity|]. split; [intro; exact V|]. split; [reflexivity|]. reflexivity. Qed.
+
+  Lemma elem_ok_access a k : prot a = true -> visible a = true -> elem_ok (access1 a k).
   Proof.
-    intros G H. unfold rw_iter in H. destruct (is_call "range" it) as [args|] eqn:Ci.
-    - apply is_call_some in Ci. subst it. inv_bind H. inv_bind H.
-      destruct (rw_args_sound ext st _ _ G Ha) as (E1 & G1).
-      destruct (fold_args_sound ext visible [] _ _ G1 Ha0) as (E2 & G2).
+    intros Pa Va. split; [reflexivity|]. split; [intro lv; simpl; now rewrite Va|]. split; [reflexivity|].
+    intros rho y v Py. simpl. unfold upd. destruct (String.eqb y a) eqn:E; auto.
+    apply String.eqb_eq in E. subst. congruence.
+  Qed.
+
+  Lemma access_vals a rho : forall done rest,
+    rho a = Some (VTup (done ++ rest)) ->
+    Forall2 (fun r v => eval rho r = Some v) (map (access1 a) (List.seq (List.length done) (List.length rest))) rest.
+  Proof.
+    intros done rest. revert done. induction rest as [|v rest IH]; intros done H; simpl; constructor.
+    - simpl. rewrite H. unfold subscript_val. simpl. apply index_list_mid.
+    - replace (S (List.length done)) with (List.length (done ++ [v])) by (rewrite app_length; simpl; lia).
+      apply IH. now rewrite <- app_assoc.
+  Qed.
+
+  Lemma for_iter_sound st it x b pre elems st0 :
+    st_ok st -> prot x = false -> giter visible plen [] it = true -> forallb tgt_ok b = true ->
+    for_iter st it b = Ok (pre, elems, st0) ->
+    pre = [] /\ st0 = st /\
+    exists vs, Forall elem_ok elems /\
+      Forall2 (fun r v => forall rho, Inv rho -> eval rho r = Some v) elems vs /\
+      (forall rho rho', Inv rho' -> Ragree visible rho rho' -> iter_vals rho it = Some vs) /\
+      (forall r b', List.In r elems -> forallb notup b = true ->
+                    forallb (gstmt visible plen (body_lv plen x [] it)) b = true ->
+                    mapM (subst_stmt false x r) b = Ok b' ->
+                    forallb (gstmt visible plen []) b' = true /\ forallb notup b' = true).
+  Proof.
+    intros S Px G T H. unfold for_iter in H. unfold giter in G.
+    assert (CONST : forall cs vs, forallb valued cs = true ->
+              Forall2 (fun c v => val_of_cst c = Some v) cs vs ->
+              name_iter plen it = None ->
+              Forall elem_ok (map EConst cs) /\
+              Forall2 (fun r v => forall rho, Inv rho -> eval rho r = Some v) (map EConst cs) vs /\
+              (forall r b', List.In r (map EConst cs) -> forallb notup b = true ->
+                    forallb (gstmt visible plen (body_lv plen x [] it)) b = true ->
+                    mapM (subst_stmt false x r) b = Ok b' ->
+                    forallb (gstmt visible plen []) b' = true /\ forallb notup b' = true)).
+    { intros cs vs Vc F Ni. split; [|split].
+      - clear - Vc. induction cs; simpl in *; constructor.
+        + apply andb_true_iff in Vc. destruct Vc. now apply elem_ok_const.
+        + apply andb_true_iff in Vc. destruct Vc. auto.
+      - clear - F. induction F; simpl; constructor; auto.
+      - intros r b' Hin Nb Gb Hs. apply in_map_iff in Hin. destruct Hin as (c & <- & Hc).
+        assert (Vc1 : valued c = true) by (rewrite forallb_forall in Vc; auto).
+        unfold body_lv in Gb. rewrite Ni in Gb.
+        apply (subst_body_guard visible x c Vc1 Px false [] b b' Nb Gb Hs). }
+    destruct (is_call "range" it) as [args|] eqn:Ci.
+    - apply is_call_some in Ci. subst it. inv_bind H. inv_bind H. inversion H; subst. clear H.
+      split; auto. split; auto.
+      unfold range_consts in Ha0. inv_bind Ha0.
+      destruct (rw_args_sound ext _ _ _ G Ha) as (E1 & G1).
+      destruct (fold_args_sound ext visible [] _ _ G1 Ha1) as (E2 & G2).
       destruct (forallb is_constant a0); try discriminate.
       destruct (all_some (map _ a0)) as [zs|] eqn:Hz; try discriminate.
       destruct (range_of zs) as [l|] eqn:Hr; try discriminate.
-      destruct (2000 <? List.length l)%nat; inversion H; subst.
+      destruct (2000 <? List.length l)%nat; inversion Ha0; subst.
       destruct (range_args_vals _ _ Hz) as (vs & Ev & Az).
-      exists (map CInt l), (map VInt l). split; [now rewrite map_map|]. split; [|split].
-      + clear. induction l; simpl; auto.
-      + clear. induction l; simpl; constructor; auto.
-      + intro rho. rewrite iter_vals_range, <- E1, <- E2, Ev, Az, Hr. reflexivity.
-    - inv_bind H.
-      assert (K : exists l, (it = ETuple l \/ it = EList l) /\ forallb valued_const l = true).
-      { destruct it; simpl in G; try discriminate; eauto. }
-      destruct K as (l & Eit & Vl). destruct (const_list_inv st l Vl) as (cs & El & Vc & M).
-      assert (Ea : a = ETuple l).
-      { destruct Eit; subst it; cbn [rw_exp] in Ha; rewrite M in Ha; simpl in Ha; now inversion Ha. }
-      subst a. simpl in H. inversion H; subst elems.
-      destruct (const_vals cs Vc) as (vs & F & Ev). exists cs, vs. split; auto. split; auto. split; auto.
-      intro rho. rewrite iter_vals_other by auto.
-      assert (Ee : eval rho it = option_map VTup (all_some (map (eval rho) l))).
-      { destruct Eit; subst it; reflexivity. }
-      rewrite Ee, El, Ev. reflexivity.
+      exists (map VInt l).
+      assert (Em : map (fun z : Z => EConst (CInt z)) l = map EConst (map CInt l)) by (now rewrite map_map).
+      rewrite Em.
+      destruct (CONST (map CInt l) (map VInt l)) as (C1 & C2 & C3); auto.
+      { clear. induction l; simpl; auto. }
+      { clear. induction l; simpl; constructor; auto. }
+      split; auto. split; auto. split; auto.
+      intros rho rho' _ _. rewrite iter_vals_range, <- E1, <- E2, Ev, Az, Hr. reflexivity.
+    - inv_bind H. apply orb_true_iff in G. destruct G as [G|G].
+      + (* a literal tuple / list of constants *)
+        assert (K : exists l, (it = ETuple l \/ it = EList l) /\ forallb valued_const l = true).
+        { destruct it; simpl in G; try discriminate; eauto. }
+        destruct K as (l & Eit & Vl). destruct (const_list_inv st l Vl) as (cs & El & Vc & M).
+        assert (Ea : a = ETuple l).
+        { destruct Eit; subst it; cbn [rw_exp] in Ha; rewrite M in Ha; simpl in Ha; now inversion Ha. }
+        subst a. simpl in H. inversion H; subst. split; auto. split; auto.
+        destruct (const_vals cs Vc) as (vs & F & Ev). exists vs.
+        assert (Ni : name_iter plen it = None) by (destruct Eit; subst it; reflexivity).
+        destruct (CONST cs vs Vc F Ni) as (C1 & C2 & C3).
+        split; auto. split; auto. split; auto.
+        intros rho rho' _ _. rewrite iter_vals_other by auto.
+        assert (Ee : eval rho it = option_map VTup (all_some (map (eval rho) (map EConst cs)))).
+        { destruct Eit; subst it; reflexivity. }
+        rewrite Ee, Ev. reflexivity.
+      + (* a typed tuple argument *)
+        destruct it; simpl in G; try discriminate. rename x0 into y.
+        destruct (prot y) eqn:Py; try discriminate.
+        destruct (visible_inv _ G) as (Dy & _). cbn [rw_exp] in Ha. rewrite Dy in Ha. inversion Ha; subst a. clear Ha.
+        assert (As : existsb (assigns_name y) b = false).
+        { clear - Py T. induction b; simpl in *; auto. apply andb_true_iff in T; destruct T.
+          rewrite (tgt_assigns y a Py), IHb; auto. }
+        rewrite As in H. inv_bind H. inversion H; subst. clear H. split; auto. split; auto.
+        destruct (plen y) as [n|] eqn:Ply; [|unfold M_A2A.prot in Py; rewrite Ply in Py; discriminate].
+        destruct (S _ _ Ply) as (tl & Hty & Ltl). destruct (conf0 _ _ Ply) as (vals & Hv & Lv).
+        unfold unroll_arg in Ha. rewrite Hty in Ha. simpl in Ha. inversion Ha; subst elems. clear Ha.
+        exists vals. split; [|split; [|split]].
+        * clear - Py G. induction (List.seq 0 (List.length tl)); simpl; constructor; auto using elem_ok_access.
+        * rewrite Ltl, <- Lv.
+          assert (F : forall rho, Inv rho ->
+                      Forall2 (fun r v => eval rho r = Some v) (map (access1 y) (List.seq 0 (List.length vals))) vals).
+          { intros rho J. apply (access_vals y rho [] vals). simpl. rewrite (J y Py). exact Hv. }
+          clear - F. revert F. generalize (map (access1 y) (List.seq 0 (List.length vals))). intros l F.
+          assert (F0 := F rho0 (fun _ _ => eq_refl)). clear - F F0.
+          revert F. induction F0; intro F; constructor.
+          -- intros rho J. specialize (F rho J). inversion F; auto.
+          -- apply IHF0. intros rho J. specialize (F rho J). inversion F; auto.
+        * intros rho rho' J R. rewrite iter_vals_other by reflexivity. simpl.
+          rewrite (R y G), (J y Py), Hv. reflexivity.
+        * intros r b' Hin Nb Gb Hs. apply in_map_iff in Hin. destruct Hin as (k & <- & _).
+          unfold body_lv in Gb. simpl in Gb. rewrite Py in Gb.
+          destruct (elem_ok_access y k Py G) as (_ & Gr & Nc & _).
+          apply (subst_body_guardT visible x (access1 y k) Gr Nc Px false b b' Nb Gb Hs).
   Qed.
+
+  Lemma bsim_ext_l P f f' g g' :
+    (forall rho rho', Inv rho' -> Ragree P rho rho' -> f rho = f' rho) -> (forall rho, g rho = g' rho) ->
+    bsim P f g -> bsim P f' g'.
+  Proof. intros Ef Eg B rho rho' o' J R H. rewrite <- Eg in H. rewrite <- (Ef rho rho' J R). eauto. Qed.
 
   (* ---------- unrolling ---------- *)
   Lemma rolls_sound n (IH : rw_spec n) x b :
-    visible x = true -> forallb (gstmt visible [x]) b = true -> forallb notup b = true ->
-    forall cs vs st l st',
-      forallb valued cs = true -> Forall2 (fun c v => val_of_cst c = Some v) cs vs ->
-      rolls_with (rw_stmt n) x b (map EConst cs) st = Ok (l, st') ->
+    visible x = true -> prot x = false -> forallb notup b = true -> forallb tgt_ok b = true ->
+    forall rs vs st l st',
+      Forall elem_ok rs ->
+      Forall2 (fun r v => forall rho, Inv rho -> eval rho r = Some v) rs vs ->
+      (forall r b', List.In r rs -> mapM (subst_stmt false x r) b = Ok b' ->
+                    forallb (gstmt visible plen []) b' = true /\ forallb notup b' = true) ->
+      st_ok st ->
+      rolls_with (rw_stmt n) x b rs st = Ok (l, st') ->
       rw_post st l st' (loop_with (exec_list b) x vs).
   Proof.
-    intros Vx Gb Nb. induction cs as [|c cs IHc]; intros vs st l st' Vc F H.
+    intros Vx Px Nb Tb. induction rs as [|r rs IHr]; intros vs st l st' Er F Hsub S H.
     - inversion F; subst. simpl in H. inversion H; subst.
-      split; [apply N.le_refl|]. split; [constructor|]. split; [reflexivity|]. exact (bsim_nil visible).
-    - inversion F as [|? w ? vs' Hw F']; subst. simpl in Vc. apply andb_true_iff in Vc; destruct Vc as [Vc1 Vc2].
-      cbn [map rolls_with loop_val] in H.
+      split; [apply N.le_refl|]. split; [constructor|]. split; [reflexivity|]. split; auto. exact (bsim_nil visible).
+    - inversion F as [|? w ? vs' Hw F']; subst. inversion Er as [|? ? Er1 Er2]; subst.
+      destruct Er1 as (Lr & Gr & Nc & Stab).
+      cbn [rolls_with] in H. rewrite Lr in H.
       inv_bind H. destruct a as [l0 st2]. inv_bind H. inv_bind H. destruct a0 as [l1 st3].
       inv_bind H. destruct a0 as [l2 st4]. inversion H; subst.
-      assert (G0 : gstmt visible [] (SAssign (TName x) (EConst c)) = true) by (simpl; now rewrite Vx, Vc1).
-      destruct (IH _ _ _ _ G0 eq_refl Ha) as (U0 & S0 & A0 & B0).
-      destruct (subst_body_guard visible x c Vc1 false [] b a Nb Gb Ha0) as (Gb' & Nb').
-      destruct (rw_list_of_spec n IH _ _ _ _ Gb' Nb' Ha1) as (U1 & S1 & A1 & B1).
-      destruct (IHc _ _ _ _ Vc2 F' Ha2) as (U2 & S2 & A2 & B2).
-      assert (Us : uq (set_constant st x (EConst c)) = uq st).
-      { unfold set_constant. destruct (has_key (tys st) x); reflexivity. }
+      assert (G0 : gstmt visible plen [] (SAssign (TName x) r) = true).
+      { cbn [gstmt]. unfold okt. now rewrite Vx, Px, (Gr []). }
+      assert (S1 : st_ok (set_constant st x r)) by (apply st_ok_set_constant; auto).
+      destruct (IH _ _ _ _ G0 eq_refl S1 Ha) as (U0 & S0 & A0 & B0 & T0).
+      destruct (Hsub r a (or_introl eq_refl) Ha0) as (Gb' & Nb').
+      destruct (rw_list_of_spec n IH _ _ _ _ Gb' Nb' T0 Ha1) as (U1 & S1' & A1 & B1 & T1).
+      assert (Hsub' : forall r0 b', List.In r0 rs -> mapM (subst_stmt false x r0) b = Ok b' ->
+                                    forallb (gstmt visible plen []) b' = true /\ forallb notup b' = true).
+      { intros r0 b' Hin. apply Hsub. now right. }
+      destruct (IHr _ _ _ _ Er2 F' Hsub' T1 Ha2) as (U2 & S2 & A2 & B2 & T2).
+      assert (Us : uq (set_constant st x r) = uq st).
+      { unfold set_constant. destruct r; destruct (has_key (tys st) x); reflexivity. }
       rewrite Us in *.
-      split; [lia|]. split; [|split].
+      split; [lia|]. split; [|split; [|split]]; auto.
       + apply shape_app; [|apply shape_app].
         * apply (shape_mono (uq st) (uq st2)); auto; lia.
         * apply (shape_mono (uq st2) (uq st3)); auto; lia.
         * apply (shape_mono (uq st3) (uq st')); auto; lia.
       + now rewrite !forallb_app, A0, A1, A2.
-      + eapply bsim_ext;
+      + eapply bsim_ext_l;
           [| |apply (bsim_seq visible _ _ _ _ (bsim_seq visible _ _ _ _ B0 B1) B2)].
-        * intro rho. unfold seq. cbn [M_A2A.exec M_A2A.eval loop_with]. rewrite Hw.
-          rewrite (subst_body_sound ext x c w Hw false b a (upd rho x w) Nb Ha0).
+        * intros rho rho' J R. unfold seq. cbn [M_A2A.exec loop_with].
+          assert (Evr : eval rho r = Some w).
+          { rewrite (eval_agree ext visible [] r rho rho' (Gr []) R). auto. }
+          rewrite Evr.
+          rewrite (subst_body_sound ext x r w (fun rho y v _ Py => Stab rho y v Py) Nc false b a (upd rho x w) Nb Tb Ha0).
           -- reflexivity.
-          -- unfold upd. now rewrite String.eqb_refl.
+          -- split.
+             ++ unfold upd. now rewrite String.eqb_refl.
+             ++ rewrite Stab; auto.
         * intro rho. rewrite seq_assoc. unfold seq. rewrite !exec_list_app.
           destruct (exec_list l0 rho) as [[r1 [v1|]]|]; auto. now rewrite exec_list_app.
   Qed.
@@ -1951,45 +2493,49 @@ Section RwMain.
   (* ---------- the statement pass ---------- *)
   Lemma rw_stmt_sound n : rw_spec n.
   Proof.
-    induction n as [|n IHn]; intros s st l st' G N H; [discriminate|].
+    induction n as [|n IHn]; intros s st l st' G N S H; [discriminate|].
     pose proof (rw_list_of_spec n IHn) as IHl.
-    destruct s as [[x|tl] e|x op e|c b o|x it b|e|[e|]]; cbn [rw_stmt] in H; cbn [gstmt] in G.
+    destruct s as [[x|tl] e|x op e|c b o|x it b fo|e|[e|]]; cbn [rw_stmt] in H; cbn [gstmt] in G.
     - (* x = e *)
-      apply andb_true_iff in G; destruct G as [Gx Ge].
-      destruct (rw_assign_sound ext _ _ _ _ _ Gx Ge H) as (U & S & A & B).
+      apply andb_true_iff in G; destruct G as [Gx Ge]. destruct (okt_inv _ _ Gx) as (Vx & Px).
+      destruct (rw_assign_sound ext _ _ _ _ _ Vx Px Ge H) as (U & Sh & A & B & T).
       split; [lia|]. split; auto.
     - discriminate.
     - (* x op= e *)
       apply andb_true_iff in G; destruct G as [G Ge]. apply andb_true_iff in G; destruct G as [Gx Gop].
+      destruct (okt_inv _ _ Gx) as (Vx & Px).
       inv_bind H. inversion H; subst.
-      assert (G1 : gexp visible [] (EBinOp op (EName x) e) = true) by (simpl; now rewrite Gop, Gx, Ge).
+      assert (G1 : gexp visible [] (EBinOp op (EName x) e) = true) by (simpl; now rewrite Gop, Vx, Ge).
       destruct (rw_exp_sound ext st' _ _ G1 Ha) as (E & G2).
-      split; [apply N.le_refl|]. split; [|split].
+      split; [apply N.le_refl|]. split; [|split; [|split]]; auto.
       + constructor; [apply tmp_shape|constructor; [apply one_shape; auto|constructor]].
-      + simpl. now rewrite (gexp_mono visible anyn [] a (fun _ _ => eq_refl) G2).
-      + eapply bsim_ext; [| |apply (bsim_tmp ext x (EBinOp op (EName x) e) a Gx G1 E)]; auto.
+      + exact (tmp_guard x a Px (gexp_mono visible anyn [] a (fun _ _ => eq_refl) G2)).
+      + eapply bsim_ext; [| |apply (bsim_tmp ext x (EBinOp op (EName x) e) a Vx Px G1 E)]; auto.
         intro rho. symmetry. apply aug_as_assign.
     - (* if *)
       apply andb_true_iff in G; destruct G as [G Go]. apply andb_true_iff in G; destruct G as [Gc Gb].
       simpl in N. apply andb_true_iff in N; destruct N as [Nb No].
       inv_bind H. destruct a as [b' st1]. inv_bind H. destruct a as [o' st2].
       cbv zeta in H. inv_bind H. inv_bind H. inv_bind H. inversion H; subst. clear H.
-      destruct (IHl _ _ _ _ Gb Nb Ha) as (U1 & S1 & A1 & B1).
-      destruct (IHl _ _ _ _ Go No Ha0) as (U2 & S2 & A2 & B2).
+      destruct (IHl _ _ _ _ Gb Nb S Ha) as (U1 & S1 & A1 & B1 & T1).
+      destruct (IHl _ _ _ _ Go No T1 Ha0) as (U2 & S2 & A2 & B2 & T2).
       destruct (rw_exp_sound ext _ _ _ Gc Ha1) as (Ec & Gc').
       pose proof (wrap_body_WB _ _ _ _ Ha2) as Wb. pose proof (wrap_else_WE _ _ _ _ Ha3) as We.
       set (u := (uq st2 + 1)%N) in *. set (t := iftarg_name u) in *.
       assert (Fb : Forall (fun s => target_of s <> Some t) b') by (apply (shape_fresh _ _ _ _ S1); lia).
       assert (Fo : Forall (fun s => target_of s <> Some t) o') by (apply (shape_fresh _ _ _ _ S2); lia).
-      unfold rw_post. cbn [uq]. split; [unfold u; lia|]. split; [|split].
+      assert (Sbl : shape (uq st) u a0).
+      { apply (WB_shape t _ _ _ _ Wb). apply (shape_mono (uq st) (uq st1)); auto; unfold u; lia. }
+      assert (Sol : shape (uq st) u a1).
+      { apply (WE_shape t _ _ _ _ We). apply (shape_mono (uq st1) (uq st2)); auto; unfold u; lia. }
+      unfold rw_post. cbn [uq]. split; [unfold u; lia|]. split; [|split; [|split]].
       + constructor.
-        * intros _. exists u. split; auto. unfold u; lia.
-        * apply shape_app.
-          -- apply (WB_shape t _ _ _ _ Wb). apply (shape_mono (uq st) (uq st1)); auto; unfold u; lia.
-          -- apply (WE_shape t _ _ _ _ We). apply (shape_mono (uq st1) (uq st2)); auto; unfold u; lia.
-      + cbn [forallb gstmt anyn andb]. rewrite (gexp_mono visible anyn [] a (fun _ _ => eq_refl) Gc').
-        rewrite forallb_app, (WB_guard t _ _ Wb A1), (WE_guard t _ _ We A2). reflexivity.
-      + intros rho rho' out' R H.
+        * split; [apply iftarg_not_prot|]. intros _. exists u. split; auto. unfold u; lia.
+        * apply shape_app; auto.
+      + cbn [forallb]. rewrite forallb_app, (WB_guard t _ _ Wb A1), (WE_guard t _ _ We A2).
+        unfold t. cbn [gstmt]. rewrite (gexp_mono visible anyn [] a (fun _ _ => eq_refl) Gc').
+        unfold okt, anyn. rewrite (iftarg_not_prot u). reflexivity.
+      + intros rho rho' out' J R H.
         rewrite exec_list_cons in H. cbn [M_A2A.exec] in H. rewrite Ec in H.
         rewrite exec_if. rewrite (eval_agree ext visible [] c rho rho' Gc R).
         destruct (eval rho' c) as [vc|]; try discriminate.
@@ -1997,57 +2543,74 @@ Section RwMain.
         assert (X1 : rho1 t = Some vc) by (unfold rho1, upd; now rewrite String.eqb_refl).
         assert (R1 : Ragree visible rho rho1).
         { apply Ragree_upd_r; auto. apply iftarg_invisible. }
+        assert (J1 : Inv rho1) by (apply Inv_upd; auto; apply iftarg_not_prot).
         rewrite exec_list_app in H.
         destruct (truthy vc) eqn:T.
         * rewrite (WB_true ext t vc _ _ Wb T Fb rho1 X1) in H.
           destruct (exec_list b' rho1) as [[r2 [v|]]|] eqn:Eb; try discriminate.
-          -- inversion H; subst. apply (B1 _ _ _ R1 Eb).
-          -- destruct (B1 _ _ _ R1 Eb) as ([r0 w0] & F0 & R0 & Ew). simpl in R0, Ew. subst w0.
+          -- inversion H; subst. apply (B1 _ _ _ J1 R1 Eb).
+          -- destruct (B1 _ _ _ J1 R1 Eb) as ([r0 w0] & F0 & (R0 & Ew) & J2). simpl in R0, Ew, J2. subst w0.
              assert (X2 : r2 t = Some vc).
              { rewrite (exec_keeps ext t b' Fb (shape_any _ _ _ S1) _ _ _ Eb). exact X1. }
              destruct (WE_true ext t vc _ _ We T Fo r2 out' X2 H) as (S3 & S4).
-             exists (r0, None). split; auto. split; simpl; auto.
-             intros z Vz. rewrite (S4 z Vz). auto.
+             exists (r0, None). split; auto. split; [split|]; simpl; auto.
+             ++ intros z Vz. rewrite (S4 z Vz). auto.
+             ++ destruct out' as [r3 w3]. apply (exec_shape_inv ext a1 (shape_any _ _ _ Sol) _ _ _ H J2).
         * destruct (exec_list a0 rho1) as [[r2 [v|]]|] eqn:Eb; try discriminate.
           -- destruct (WB_false ext t vc _ _ Wb T Fb rho1 _ X1 Eb) as (S3 & _). discriminate.
           -- destruct (WB_false ext t vc _ _ Wb T Fb rho1 _ X1 Eb) as (_ & S4 & X2). simpl in S4, X2.
              rewrite (WE_false ext t vc _ _ We T Fo r2 X2) in H.
              apply (B2 rho r2 out'); auto.
-             intros z Vz. rewrite (S4 z Vz). auto.
+             ++ apply (exec_shape_inv ext a0 (shape_any _ _ _ Sbl) _ _ _ Eb J1).
+             ++ intros z Vz. rewrite (S4 z Vz). auto.
+      + apply (st_ok_tys st2); auto.
     - (* for *)
-      apply andb_true_iff in G; destruct G as [G Gb]. apply andb_true_iff in G; destruct G as [Gx Gi].
-      simpl in N. inv_bind H.
-      destruct (rw_iter_sound _ _ _ Gi Ha) as (cs & vs & -> & Vc & F & Ev).
-      destruct (rolls_sound n IHn x b Gx Gb N cs vs _ _ _ Vc F H) as (U & S & A & B).
-      split; auto. split; auto. split; auto.
-      eapply bsim_ext; [| |exact B]; auto.
-      intro rho. rewrite exec_for, Ev. reflexivity.
+      apply andb_true_iff in G; destruct G as [G Go]. apply andb_true_iff in G; destruct G as [G Gb].
+      apply andb_true_iff in G; destruct G as [G Gn]. apply andb_true_iff in G; destruct G as [Gx Gi].
+      destruct (okt_inv _ _ Gx) as (Vx & Px).
+      simpl in N. apply andb_true_iff in N; destruct N as [Nb No].
+      inv_bind H. destruct a as [[pre elems] st0]. inv_bind H. destruct a as [l1 st1].
+      inv_bind H. destruct a as [o' st2]. inversion H; subst. clear H.
+      pose proof (glist_tgt_ok _ _ _ Gb) as Tb.
+      destruct (for_iter_sound _ _ x _ _ _ _ S Px Gi Tb Ha) as (-> & -> & vs & Er & F & Ev & Hsub).
+      assert (Hsub' : forall r b', List.In r elems -> mapM (subst_stmt false x r) b = Ok b' ->
+                                   forallb (gstmt visible plen []) b' = true /\ forallb notup b' = true).
+      { intros r b' Hin Hs. apply (Hsub r b' Hin Nb Gb Hs). }
+      destruct (rolls_sound n IHn x b Vx Px Nb Tb elems vs _ _ _ Er F Hsub' S Ha0) as (U1 & S1 & A1 & B1 & T1).
+      destruct (IHl _ _ _ _ Go No T1 Ha1) as (U2 & S2 & A2 & B2 & T2).
+      split; [lia|]. split; [|split; [|split]]; auto.
+      + simpl app. apply shape_app; [apply (shape_mono (uq st) (uq st1)) | apply (shape_mono (uq st1) (uq st'))]; auto; lia.
+      + simpl app. now rewrite forallb_app, A1, A2.
+      + eapply bsim_ext_l; [| |apply (bsim_seq visible _ _ _ _ B1 B2)].
+        * intros rho rho' J R. rewrite exec_for, (Ev rho rho' J R). reflexivity.
+        * intro rho. simpl app. unfold seq. now rewrite exec_list_app.
     - (* return *)
       inv_bind H. inversion H; subst. destruct (rw_exp_sound ext st' _ _ G Ha) as (E & G').
-      split; [apply N.le_refl|]. split; [|split].
+      split; [apply N.le_refl|]. split; [|split; [|split]]; auto.
       + constructor; [exact I|constructor].
       + simpl. now rewrite (gexp_mono visible anyn [] a (fun _ _ => eq_refl) G').
       + apply bsim_single. apply (bsim_return ext visible []); auto.
     - (* expression statement *)
       rewrite (gexp_not_call _ _ _ "print" G) in H by reflexivity.
       inv_bind H. inversion H; subst. destruct (rw_exp_sound ext st' _ _ G Ha) as (E & G').
-      split; [apply N.le_refl|]. split; [|split].
+      split; [apply N.le_refl|]. split; [|split; [|split]]; auto.
       + constructor; [exact I|constructor].
       + simpl. now rewrite (gexp_mono visible anyn [] a (fun _ _ => eq_refl) G').
       + apply bsim_single. apply (bsim_expr ext visible []); auto.
     - inversion H; subst.
-      split; [apply N.le_refl|]. split; [|split].
+      split; [apply N.le_refl|]. split; [|split; [|split]]; auto.
       + constructor; [exact I|constructor].
-      + reflexivity.
-      + apply bsim_single. intros rho rho' o' R H'. simpl in *. inversion H'; subst.
-        exists (rho, None). split; auto. split; auto.
+      + apply bsim_single. intros rho rho' o' J R H'. simpl in *. inversion H'; subst.
+        exists (rho, None). split; auto. split; [split|]; auto.
   Qed.
 
   Lemma rw_list_sound b st l st' :
-    forallb (gstmt visible []) b = true -> forallb notup b = true ->
+    forallb (gstmt visible plen []) b = true -> forallb notup b = true -> st_ok st ->
     rw_list rw_fuel st b = Ok (l, st') -> rw_post st l st' (exec_list b).
   Proof. apply (rw_list_of_spec rw_fuel (rw_stmt_sound rw_fuel)). Qed.
 End RwMain.
+
+End Typed.
 
 (* ------------------------------------------------------------------ *)
 (* normal form of whatever the rewriter returns (no guard)             *)
@@ -2096,17 +2659,37 @@ Proof.
     rewrite !forallb_app, (IH _ _ _ _ Ha), (rw_list_normal_of rw IH _ _ _ _ Ha1), (IHr _ _ _ Ha2). reflexivity.
 Qed.
 
+Lemma for_iter_normal st it b pre elems st0 :
+  for_iter st it b = Ok (pre, elems, st0) -> forallb normal_stmt pre = true.
+Proof.
+  unfold for_iter. intro H. destruct (is_call "range" it).
+  - inv_bind H. inv_bind H. inversion H; subst. reflexivity.
+  - inv_bind H.
+    assert (D : (exists l, unroll_arg st a = Ok l /\ pre = []) \/
+                (exists y l0 st1, a = EName y /\ rw_assign (mkst (tys st) (cns st) (uq st + 1)%N)
+                                                        (forit_name (uq st + 1)%N) (EName y) = Ok (l0, st1) /\ pre = l0)).
+    { destruct a; try (inv_bind H; inversion H; subst; left; eauto; fail).
+      destruct (existsb (assigns_name x) b).
+      - cbv zeta in H. inv_bind H. destruct a as [l0 st1]. inv_bind H. inversion H; subst. right. eauto 8.
+      - inv_bind H. inversion H; subst. left; eauto. }
+    destruct D as [(l & _ & ->)|(y & l0 & st1 & _ & R & ->)]; auto.
+    apply (rw_assign_normal _ _ _ _ _ R).
+Qed.
+
 Lemma rw_stmt_normal n : forall s st l st', rw_stmt n st s = Ok (l, st') -> forallb normal_stmt l = true.
 Proof.
   induction n as [|n IHn]; intros s st l st' H; [discriminate|].
-  destruct s as [[x|tl] e|x op e|c b o|x it b|e|[e|]]; cbn [rw_stmt] in H.
+  destruct s as [[x|tl] e|x op e|c b o|x it b fo|e|[e|]]; cbn [rw_stmt] in H.
   - apply (rw_assign_normal _ _ _ _ _ H).
   - discriminate.
   - inv_bind H. inversion H; subst. reflexivity.
   - inv_bind H. destruct a as [b' st1]. inv_bind H. destruct a as [o' st2].
     cbv zeta in H. inv_bind H. inv_bind H. inv_bind H. inversion H; subst.
     simpl. now rewrite forallb_app, (wrap_body_normal _ _ _ _ Ha2), (wrap_else_normal _ _ _ _ Ha3).
-  - inv_bind H. apply (rolls_normal_of _ _ _ IHn _ _ _ _ H).
+  - inv_bind H. destruct a as [[pre elems] st0]. inv_bind H. destruct a as [l1 st1].
+    inv_bind H. destruct a as [o' st2]. inversion H; subst.
+    rewrite !forallb_app, (for_iter_normal _ _ _ _ _ _ Ha), (rolls_normal_of _ _ _ IHn _ _ _ _ Ha0),
+      (rw_list_normal_of _ IHn _ _ _ _ Ha1). reflexivity.
   - inv_bind H. inversion H; subst. reflexivity.
   - destruct (is_call "print" e).
     + inv_bind H. inversion H; subst. reflexivity.
@@ -2140,27 +2723,51 @@ Qed.
 Lemma Ragree_refl P rho : Ragree P rho rho.
 Proof. intros x _. reflexivity. Qed.
 
+Lemma plen_of_inv f a n :
+  plen_of f a = Some n ->
+  user_name a = true /\
+  exists l, assoc (tys (init_state (f_args f))) a = Some (TyNode (ESubscript (EName "Tuple") (ETuple l))) /\
+            List.length l = n.
+Proof.
+  unfold plen_of. destruct (assoc (tys (init_state (f_args f))) a) as [[e|]|]; try discriminate.
+  destruct e; try discriminate. destruct e1; try discriminate. destruct e2; try discriminate.
+  destruct (String.eqb x "Tuple") eqn:E; [|discriminate]. destruct (user_name a); [|discriminate].
+  simpl. intro H. inversion H; subst. apply String.eqb_eq in E. subst. eauto.
+Qed.
+
+Lemma prot_of_user f a : prot (plen_of f) a = true -> user_name a = true.
+Proof.
+  unfold prot. destruct (plen_of f a) as [n|] eqn:E; try discriminate. intros _.
+  apply (plen_of_inv _ _ _ E).
+Qed.
+
 Theorem a2a_backward : forall ext f b',
   a2a_guard f = true -> a2a f = Ok b' ->
-  forall rho v, run ext b' rho = Some v -> run ext (f_body f) rho = Some v.
+  forall rho, conforms f rho ->
+  forall v, run ext b' rho = Some v -> run ext (f_body f) rho = Some v.
 Proof.
-  intros ext f b' G H rho v R. unfold a2a_guard in G. unfold a2a in H.
+  intros ext f b' G H rho C v R. unfold a2a_guard in G. unfold a2a in H.
   inv_bind H. inv_bind H. inv_bind H.
   unfold rw_fun in Ha1. inv_bind Ha1. inv_bind Ha1. destruct a3 as [b3 st3]. inv_bind Ha1. inversion Ha1; subst.
-  destruct (fold_list_sound ext user_name [] _ _ G Ha) as (E1 & G1).
-  destruct (multi_list_sound ext [] _ _ G1 Ha0) as (G2 & B2).
+  set (plen := plen_of f) in *.
+  destruct (fold_list_sound plen ext user_name [] _ _ G Ha) as (E1 & G1).
+  destruct (multi_list_sound plen (prot_of_user f) rho C ext [] _ _ G1 Ha0) as (G2 & B2).
   pose proof (multi_list_notup _ _ Ha0) as N2.
-  destruct (rw_list_sound ext _ _ _ _ G2 N2 Ha3) as (_ & _ & G3 & B3).
-  destruct (fold_list_sound ext anyn [] _ _ G3 H) as (E4 & _).
+  assert (S0 : st_ok plen (init_state (f_args f))).
+  { intros z n Pa. apply (plen_of_inv _ _ _ Pa). }
+  destruct (rw_list_sound plen (prot_of_user f) rho C ext _ _ _ _ G2 N2 S0 Ha3) as (_ & _ & G3 & B3 & _).
+  destruct (fold_list_sound plen ext anyn [] _ _ G3 H) as (E4 & _).
+  assert (J0 : Inv plen rho rho) by (intros z _; reflexivity).
   unfold run in *. rewrite E4 in R.
   destruct (exec_list ext a1 rho) as [[r3 [v3|]]|] eqn:X3; try discriminate. inversion R; subst v3.
-  destruct (B3 _ _ _ (Ragree_refl visible rho) X3) as ([r2 w2] & X2 & _ & Ew). simpl in Ew. subst w2.
-  destruct (B2 _ _ _ (Ragree_refl user_name rho) X2) as ([r1 w1] & X1 & _ & Ew). simpl in Ew. subst w1.
+  destruct (B3 _ _ _ J0 (Ragree_refl visible rho) X3) as ([r2 w2] & X2 & (_ & Ew) & _). simpl in Ew. subst w2.
+  destruct (B2 _ _ _ J0 (Ragree_refl user_name rho) X2) as ([r1 w1] & X1 & (_ & Ew) & _). simpl in Ew. subst w1.
   rewrite <- E1, X1. reflexivity.
 Qed.
 
 (* ------------------------------------------------------------------ *)
-(* the unguarded statement is false of the faithful model              *)
+(* the five programs that refuted preservation before the repairs       *)
+(* cc7fed2 .. d025bfb of /repo: each is now preserved                   *)
 (* ------------------------------------------------------------------ *)
 Definition no_ext : string -> list val -> option val := fun _ _ => None.
 Definition ann_bool : option exp := Some (EName "bool").
@@ -2168,15 +2775,13 @@ Definition ann_tuple (l : list exp) : option exp := Some (ESubscript (EName "Tup
 Definition ann_qint2 : exp := ESubscript (EName "Qint") (EConst (CInt 2)).
 Definition ci (z : Z) : exp := EConst (CInt z).
 
-(* def f(t: Tuple[Tuple[bool, bool], bool]) -> bool:  t, a = t;  return a
-   ReplaceMultiTargetAssign emits  t = t[0]; a = t[1] : the second reads the NEW t *)
+(* def f(t: Tuple[Tuple[bool, bool], bool]) -> bool:  t, a = t;  return a *)
 Definition wit_multi : fundef :=
   mkfun [("t", ann_tuple [ESubscript (EName "Tuple") (ETuple [EName "bool"; EName "bool"]); EName "bool"])] ann_bool
         [SAssign (TTuple [EName "t"; EName "a"]) (EName "t"); SReturn (EName "a")].
 Definition wit_multi_env : env := env_of [("t", VTup [VTup [VBool true; VBool false]; VBool true])].
 
-(* def f(a: bool, b: bool, u: Tuple[Qint[2], bool]) -> bool:  t = (a, b);  a = not a;  return t[u[0]]
-   visit_Subscript inlines the ELEMENT EXPRESSIONS recorded for t: they are read after a changed *)
+(* def f(a: bool, b: bool, u: Tuple[Qint[2], bool]) -> bool:  t = (a, b);  a = not a;  return t[u[0]] *)
 Definition wit_alias : fundef :=
   mkfun [("a", ann_bool); ("b", ann_bool); ("u", ann_tuple [ann_qint2; EName "bool"])] ann_bool
         [SAssign (TName "t") (ETuple [EName "a"; EName "b"]);
@@ -2184,8 +2789,7 @@ Definition wit_alias : fundef :=
          SReturn (ESubscript (EName "t") (ESubscript (EName "u") (ci 0)))].
 Definition wit_alias_env : env := env_of [("a", VBool true); ("b", VBool false); ("u", VTup [VInt 0; VBool true])].
 
-(* def f(a: bool, b: bool, c: bool, u: ...) -> bool:  t = (a, b);  if c: t = (b, a);  return t[u[0]]
-   Environment.constants is flow-insensitive: the LAST tuple assigned anywhere is inlined *)
+(* def f(a, b, c: bool, u: ...) -> bool:  t = (a, b);  if c: t = (b, a);  return t[u[0]] *)
 Definition wit_flow : fundef :=
   mkfun [("a", ann_bool); ("b", ann_bool); ("c", ann_bool); ("u", ann_tuple [ann_qint2; EName "bool"])] ann_bool
         [SAssign (TName "t") (ETuple [EName "a"; EName "b"]);
@@ -2194,48 +2798,87 @@ Definition wit_flow : fundef :=
 Definition wit_flow_env : env :=
   env_of [("a", VBool true); ("b", VBool false); ("c", VBool false); ("u", VTup [VInt 0; VBool true])].
 
-(* def f(m: Qmatrix[bool, 2, 3]) -> bool:  r = False;  for x in m[0]: r = r ^ x;  return r
-   __unroll_arg takes the length of a row from the OUTER tuple: 2 of the 3 elements are visited *)
+(* def f(m: Qmatrix[bool, 2, 3]) -> bool:  r = False;  for x in m[0]: r = r ^ x;  return r *)
 Definition ann_row3 : exp := ESubscript (EName "Tuple") (ETuple [EName "bool"; EName "bool"; EName "bool"]).
 Definition wit_matrix : fundef :=
   mkfun [("m", ann_tuple [ann_row3; ann_row3])] ann_bool
         [SAssign (TName "r") (EConst (CBool false));
-         SFor "x" (ESubscript (EName "m") (ci 0)) [SAssign (TName "r") (EBinOp BitXor (EName "r") (EName "x"))];
+         SFor "x" (ESubscript (EName "m") (ci 0)) [SAssign (TName "r") (EBinOp BitXor (EName "r") (EName "x"))] [];
          SReturn (EName "r")].
 Definition wit_matrix_env : env :=
   env_of [("m", VTup [VTup [VBool false; VBool false; VBool true]; VTup [VBool false; VBool false; VBool false]])].
 
-(* def f(a: Tuple[bool, bool]) -> bool:  s = False;  for x in a: a = (s, x); s = s ^ x;  return s
-   the loop variable is replaced by the EXPRESSION a[i], read after a was re-bound *)
+(* def f(a: Tuple[bool, bool]) -> bool:  s = False;  for x in a: a = (s, x); s = s ^ x;  return s *)
 Definition wit_loop : fundef :=
   mkfun [("a", ann_tuple [EName "bool"; EName "bool"])] ann_bool
         [SAssign (TName "s") (EConst (CBool false));
          SFor "x" (EName "a") [SAssign (TName "a") (ETuple [EName "s"; EName "x"]);
-                               SAssign (TName "s") (EBinOp BitXor (EName "s") (EName "x"))];
+                               SAssign (TName "s") (EBinOp BitXor (EName "s") (EName "x"))] [];
          SReturn (EName "s")].
 Definition wit_loop_env : env := env_of [("a", VTup [VBool true; VBool true])].
 
+(* the normaliser succeeds and both programs return [v] *)
+Definition agree (f : fundef) (rho : env) (v : val) : Prop :=
+  exists b', a2a f = Ok b' /\ run no_ext b' rho = Some v /\ run no_ext (f_body f) rho = Some v.
 Definition differ (f : fundef) (rho : env) : Prop :=
   exists b' v v', a2a f = Ok b' /\ run no_ext b' rho = Some v /\ run no_ext (f_body f) rho = Some v' /\
                   val_eqb v v' = false.
 
-Lemma wit_multi_differ : differ wit_multi wit_multi_env.
+Lemma wit_multi_agree : agree wit_multi wit_multi_env (VBool true).
+Proof. unfold agree. eexists. repeat split; vm_compute; reflexivity. Qed.
+Lemma wit_alias_agree : agree wit_alias wit_alias_env (VBool true).
+Proof. unfold agree. eexists. repeat split; vm_compute; reflexivity. Qed.
+Lemma wit_flow_agree : agree wit_flow wit_flow_env (VBool true).
+Proof. unfold agree. eexists. repeat split; vm_compute; reflexivity. Qed.
+Lemma wit_matrix_agree : agree wit_matrix wit_matrix_env (VBool true).
+Proof. unfold agree. eexists. repeat split; vm_compute; reflexivity. Qed.
+Lemma wit_loop_agree : agree wit_loop wit_loop_env (VBool false).
+Proof. unfold agree. eexists. repeat split; vm_compute; reflexivity. Qed.
+
+(* ------------------------------------------------------------------ *)
+(* the unguarded statement is STILL false of the faithful model        *)
+(* ------------------------------------------------------------------ *)
+(* def f(c: bool, u: Tuple[Qint[2], bool]) -> bool:
+       t = (True, False);  if c: t = (False, True);  return t[u[0]]
+   Environment.constants is flow-insensitive and a tuple of CONSTANTS is still inlined: the last
+   tuple assigned anywhere is read, whatever c is *)
+Definition wit_constflow : fundef :=
+  mkfun [("c", ann_bool); ("u", ann_tuple [ann_qint2; EName "bool"])] ann_bool
+        [SAssign (TName "t") (ETuple [EConst (CBool true); EConst (CBool false)]);
+         SIf (EName "c") [SAssign (TName "t") (ETuple [EConst (CBool false); EConst (CBool true)])] [];
+         SReturn (ESubscript (EName "t") (ESubscript (EName "u") (ci 0)))].
+Definition wit_constflow_env : env := env_of [("c", VBool false); ("u", VTup [VInt 0; VBool true])].
+
+(* def f(a: bool, b: bool) -> bool:  _temptup = (a, b);  a, b = b, a;  return _temptup[0]
+   a user variable named like the temporary of ReplaceMultiTargetAssign *)
+Definition wit_temptup : fundef :=
+  mkfun [("a", ann_bool); ("b", ann_bool)] ann_bool
+        [SAssign (TName "_temptup") (ETuple [EName "a"; EName "b"]);
+         SAssign (TTuple [EName "a"; EName "b"]) (ETuple [EName "b"; EName "a"]);
+         SReturn (ESubscript (EName "_temptup") (ci 0))].
+Definition wit_temptup_env : env := env_of [("a", VBool true); ("b", VBool false)].
+
+(* def f(a, b, c: bool) -> bool:  _iftarg2 = c;  if a: b = not b;  return _iftarg2 *)
+Definition wit_iftarg : fundef :=
+  mkfun [("a", ann_bool); ("b", ann_bool); ("c", ann_bool)] ann_bool
+        [SAssign (TName "_iftarg2") (EName "c");
+         SIf (EName "a") [SAssign (TName "b") (EUnOp Not (EName "b"))] [];
+         SReturn (EName "_iftarg2")].
+Definition wit_iftarg_env : env := env_of [("a", VBool false); ("b", VBool false); ("c", VBool true)].
+
+Lemma wit_constflow_differ : differ wit_constflow wit_constflow_env.
 Proof. unfold differ. eexists. exists (VBool false), (VBool true). repeat split; vm_compute; reflexivity. Qed.
-Lemma wit_alias_differ : differ wit_alias wit_alias_env.
+Lemma wit_temptup_differ : differ wit_temptup wit_temptup_env.
 Proof. unfold differ. eexists. exists (VBool false), (VBool true). repeat split; vm_compute; reflexivity. Qed.
-Lemma wit_flow_differ : differ wit_flow wit_flow_env.
+Lemma wit_iftarg_differ : differ wit_iftarg wit_iftarg_env.
 Proof. unfold differ. eexists. exists (VBool false), (VBool true). repeat split; vm_compute; reflexivity. Qed.
-Lemma wit_matrix_differ : differ wit_matrix wit_matrix_env.
-Proof. unfold differ. eexists. exists (VBool false), (VBool true). repeat split; vm_compute; reflexivity. Qed.
-Lemma wit_loop_differ : differ wit_loop wit_loop_env.
-Proof. unfold differ. eexists. exists (VBool true), (VBool false). repeat split; vm_compute; reflexivity. Qed.
 
 (* "the rewriter preserves the returned value of every program it accepts" is FALSE *)
 Theorem a2a_preserves_refuted :
   exists f rho b' v v', a2a f = Ok b' /\ run no_ext b' rho = Some v /\
                         run no_ext (f_body f) rho = Some v' /\ v <> v'.
 Proof.
-  exists wit_alias, wit_alias_env. eexists. exists (VBool false), (VBool true).
+  exists wit_constflow, wit_constflow_env. eexists. exists (VBool false), (VBool true).
   repeat split; try (vm_compute; reflexivity). discriminate.
 Qed.
 
@@ -2250,4 +2893,23 @@ Theorem a2a_forward_refuted :
 Proof.
   exists wit_undef, (env_of [("c", VBool false)]). eexists. exists (VBool false).
   repeat split; vm_compute; reflexivity.
+Qed.
+
+(* ------------------------------------------------------------------ *)
+(* conformance is decidable on the arguments                           *)
+(* ------------------------------------------------------------------ *)
+Lemma assoc_in {A} (l : list (string * A)) x v : assoc l x = Some v -> List.In x (map fst l).
+Proof.
+  induction l as [|[y a] r IH]; simpl; try discriminate.
+  destruct (String.eqb y x) eqn:E; auto. apply String.eqb_eq in E. auto.
+Qed.
+
+Theorem conforms_check f rho : conforms_b f rho = true -> conforms f rho.
+Proof.
+  unfold conforms_b, conforms. intros H a n Pa.
+  destruct (plen_of_inv _ _ _ Pa) as (_ & l & Hl & _).
+  apply assoc_in in Hl. unfold init_state in Hl. simpl in Hl.
+  rewrite map_rev, map_map in Hl. simpl in Hl. apply in_rev in Hl.
+  rewrite forallb_forall in H. specialize (H a Hl). rewrite Pa in H.
+  destruct (rho a) as [[| |vs]|]; try discriminate. apply Nat.eqb_eq in H. eauto.
 Qed.
